@@ -1,7 +1,9 @@
 #!/usr/bin/env python3
-"""handler_translate.py -- vocabulary-lifting translator for the loop-free STATE HANDLERS of
-cat.c, and driver of the "handler tie": a Coq proof, re-checked on every run, that the Gallina
-definition GENERATED from the C source of a handler equals the HAND-WRITTEN model function of
+"""handler_translate.py -- vocabulary-lifting translator for the STATE HANDLERS of cat.c (the
+loop-free ones, and the helpers around them: the 2-bit lanes of the name-matching bitmap, the
+loops over the descriptor tables, the queue of unsolicited events, the public functions that take
+the mutex), and driver of the "handler tie": a Coq proof, re-checked on every run, that the Gallina
+definition GENERATED from the C source of a function equals the HAND-WRITTEN model function of
 coq/Fsm.v for ALL descriptors and ALL states.
 
     python3 tools/handler_translate.py /repo/src /verif/build/handlers /verif/coq
@@ -11,7 +13,9 @@ Pipeline (all offline: python3 stdlib + clang + coqc)
   cat.c --clang -ast-dump=json--> typed AST --translate()--> HandlerGen.v  (Definitions g_<fn>)
   coq/HandlerTieLib.v   (static: helper definitions, the tactic tie_auto, test families) -- copied
   coq/HandlerTie.v.in   (template) --assemble--> HandlerTie.v  (theorems tie_<fn>: g_<fn> = model)
-  coqc HandlerTieLib.v ; coqc HandlerGen.v ; coqc HandlerTie.v
+  coqc HandlerTieLib.v ; coqc HandlerGen.v ; then HandlerTie.v is compiled IN PARTS, in parallel
+  (HandlerTie_partK.v = the common text + the blocks of some of the functions; a part that is
+  refused is re-checked function by function, HandlerTie_<fn>.v, to attribute the failure)
   a tie that fails -> HandlerDiag_<fn>.v: both sides evaluated (vm_compute) on a deterministic
   family of concrete states; the first state on which they differ is the WITNESS.
 
@@ -61,6 +65,37 @@ Translation rules (everything else is refused: 'unsupported', never guessed)
     a refactoring) is not guessed either: the callee is translated on the fly by the same rules,
     as g_aux_<name>, and called; it then belongs to the GENERATED side of the tie (class
     AuxRegistry).  If it cannot be translated the caller is 'unsupported'.
+  * uint8_t arithmetic (get_cmd_state / set_cmd_state).  A uint8_t value is N (kind lane), the
+    `int` it is promoted to is Z (kind mint) with the mathematical Z.shiftl Z.shiftr Z.land Z.lor
+    Z.lxor Z.lnot + -; the translator carries an INTERVAL for every such value and refuses a shift
+    whose amount is not in [0, 31], a shift of a possibly negative value, and any result not
+    known to fit an int (so the Z operation IS the C operation).  Conversions are explicit:
+    char -> uint8_t is u8 (Z.of_N b), int -> uint8_t is u8 x (x mod 256), size_t -> uint8_t only for
+    a value with a known bound < 256.  On size_t (nat): x >> c is x / 2^c, x % c is x mod c,
+    x << c needs a known bound, x & y is Nat.land, a - b is guarded (b > a: fault).  The leaf
+    "generated arithmetic = Fsm.lane_get / lane_set" is decided by an exhaustive sweep over
+    byte x lane (x value), see HandlerTieLib.lane_core.
+  * PURE functions (PURE_FUNCTIONS, those returning uint8_t, those in POINTER_RETURN) become
+    g_f : .. -> state -> option T: they must not modify *self, `return e` is Some e, a partial
+    read makes them answer None.  Pointer results: NULL is None.
+  * Loops.  Two shapes, in pure functions only, at the top level of the body (anything else is
+    refused): (1) `for (i = 0; i < N; i++) BODY` where N is the length of an array the mapping
+    table identifies with a model list (self->desc->cmd_group[..], c->var[..]) and i is only
+    used as ARRAY[i]: a Fixpoint g_f_loopK over that list, the locals BODY assigns being extra
+    arguments; `continue` / the end of BODY recurse on the tail, `break` / the empty list go to
+    g_f_afterK (the statements after the loop), `return` answers.  (2) a countdown
+    `while ((n > 0) && C) { .. --n; .. }`: a Fixpoint on n.  The tie of a loop needs a lemma
+    generalised over the carried variables; it is stated by hand in HandlerTie.v.in and proved by
+    the generic tactics HandlerTieLib.tie_loop / tie_wloop (induction).
+  * OUT-parameters (`T *p`, only written; OUT_PARAM_KINDS): the function answers
+    (state, status, option T ..): Some v if it wrote *p.  At a call (OUT_HELPERS) `&local` makes
+    the local an OPTION (reading it when the callee did not write it is a fault), `&self->f`
+    stores the field if the callee wrote it.  A function with an out-parameter of kind K must not
+    read a field of self of kind K (it could be the same object).
+  * After a fault at the top level of a function whose status varies the function answers
+    (set_fault_flag s, HandlerTieLib.fault_status): the state is outside the verified envelope,
+    the value only has to be fixed.
+  * The public functions that take the mutex: see API_FUNCTIONS in section 1.
   * Besides whole functions, three PARTS of functions are tied (see the tables of section 1):
       - POST_CALL_FUNCTIONS: the switch over the code returned by a command handler, as a function
         of that code (g_<f>_post D code s);
@@ -88,14 +123,21 @@ import time
 # 1. THE MAPPING TABLE  (trusted: C vocabulary  <->  vocabulary of coq/Defs.v + coq/Fsm.v)
 # ======================================================================================
 # Kinds = the Coq types C values are lifted to.
-#   nat (size_t)  byte (char: N, the byte)  lane (uint8_t 2-bit command state: N)  Z (int,
-#   cat_status, cat_return_state)  bool  cstate ustate ctype wstate fsm vaccess (enumerations)
+#   nat (size_t)  byte (char: N, the byte)  lane (a uint8_t value: N; mint: the int it is promoted
+#   to: Z)  Z (int, cat_status, cat_return_state)  bool  cstate ustate ctype wstate fsm vaccess
 #   cmdptr (struct cat_command const *, as option nat = index into Fsm.pool)  cmdrec (a command
 #   descriptor: Defs.cmd)  fnptr (a handler pointer, as the bool "is not NULL")  cstr (a C string
 #   of the descriptor: list N)
+#   grp (struct cat_command_group const *: an element of HandlerTieLib.enum_groups = group number,
+#   number of commands before it, its commands)  varrec (struct cat_variable const *: Defs.var)
+#   cmdidx (a NON-NULL struct cat_command const * that is only stored / compared: nat, the index
+#   into Fsm.pool)  ringref (struct cat_unsolicited_cmd *: nat, the index into the ring)
 COQ_TYPE = {"nat": "nat", "byte": "N", "lane": "N", "Z": "Z", "bool": "bool", "truth": "bool",
             "cstate": "cstate", "ustate": "ustate", "ctype": "ctype", "wstate": "wstate",
-            "fsm": "fsm", "vaccess": "vaccess", "cmdrec": "cmd"}
+            "fsm": "fsm", "vaccess": "vaccess", "cmdrec": "cmd", "grp": "grp", "varrec": "var",
+            "cmdidx": "nat", "ringref": "nat", "cmdptr": "option nat", "cmdrecopt": "option cmd",
+            "str": "list N", "vtype": "vtype"}
+#   str (a NUL-terminated C string that is only printed: list N, its bytes without the NUL)
 
 # ---- fields of struct cat_object (self->F): kind, projection (read), setter (store) ----
 OBJ_FIELDS = {
@@ -129,7 +171,18 @@ UNS_FIELDS = {
     "cmd":               ("cmdptr", "u_cmd",      "setu_cmd"),
     "write_buf":         ("wbuf",   "u_wbuf",     "setu_wbuf"),
     "var":               ("varidx", "u_var",      "setu_var"),
+    # the queue of unsolicited events
+    "unsolicited_cmd_buffer_tail":        ("nat", "u_tail",  "setu_tail"),
+    "unsolicited_cmd_buffer_head":        ("nat", "u_head",  "setu_head"),
+    "unsolicited_cmd_buffer_items_count": ("nat", "u_count", "setu_count"),
+    # "unsolicited_cmd_buffer": only as  item = &self->unsolicited_fsm.unsolicited_cmd_buffer[e]
+    #   (item : ringref = e);  item->cmd / item->type read  fst / snd of nth_error (u_ring (u s)) e
+    #   (partial);  item->cmd = v / item->type = v  are  HandlerTieLib.ring_store
 }
+# ---- object-like macros of cat.h recognised BY NAME (the name is read back from the source text
+#      at the expansion location clang reports).  The model does not fix the capacity of the
+#      queue: it is the descriptor parameter Defs.d_cap (Fsm.cap).
+MACRO_CONSTANTS = {"CAT_UNSOLICITED_CMD_BUFFER_SIZE": ("nat", "cap D")}
 # self->commands_num is computed once by cat_init: the number of registered commands.
 OBJ_CONSTANTS = {"commands_num": ("nat", "ncmds D")}
 
@@ -147,6 +200,43 @@ CMD_FIELDS = {
     # "var": only inside the idiom  (c->var != NULL) && (c->var_num > 0)   <->   c_vars c <> []
     #        and in the pointer stores  self->var = c->var  /  self->var = &c->var[i]
 }
+
+# ---- fields of struct cat_command_group read through a group g : HandlerTieLib.grp, and of
+#      struct cat_variable read through v : Defs.var.  The `disable` flags are run-time state in
+#      the model (Defs.dis_grp by group number, Defs.dis_cmd by GLOBAL command index, total lookups
+#      nthb); `g->cmd[e].disable` is the flag of command number (commands before g) + e.
+GRP_FIELDS = {
+    "cmd_num": ("nat",  "length (grp_cmds {g})"),
+    "disable": ("bool", "nthb (dis_grp {s}) (grp_index {g})"),
+    # "cmd": only in  g->cmd[e].disable   nthb (dis_cmd s) (grp_off g + e)
+    #        and      &g->cmd[e]          nth_error (grp_cmds g) e     (a returned descriptor)
+}
+VAR_FIELDS = {
+    "access":    ("vaccess", "v_access {v}"),
+    "type":      ("vtype",   "v_type {v}"),
+    "data_size": ("nat",     "v_size {v}"),
+    # "name": an optional string (NULL = None): v->name != NULL, and v->name printed (partial)
+}
+# optional strings of the descriptors:  x->f == / != NULL  and  x->f used as a string (partial read)
+OPTIONAL_STRINGS = {("cmdrec", "description"): "c_descr {x}", ("varrec", "name"): "v_name {x}"}
+# ---- the arrays a `for (i = 0; i < N; i++)` loop may range over (the loop is translated into a
+#      structural recursion over the model list; i may only be used as ARRAY[i]):
+#   i < self->desc->cmd_group_num,  self->desc->cmd_group[i]   enum_groups (d_groups D) 0 0 : list grp
+#   i < c->var_num,                 &c->var[i] / c->var[i]     c_vars c : list var
+# ---- pointer-valued functions: what the returned pointer is lifted to
+POINTER_RETURN = {"get_command_by_index": "cmdrecopt",      # option cmd  (NULL / no element -> None)
+                  "get_command_by_fsm": "cmdptr",           # option nat  (NULL -> None)
+                  "cat_get_processed_command": "cmdptr"}
+# ---- functions translated as PURE functions  state -> option T  (they must not modify *self; a
+#      partial read makes them answer None).  Besides these: every function that returns uint8_t
+#      or is in POINTER_RETURN.
+PURE_FUNCTIONS = ("is_command_disable", "is_variables_access_possible",
+                  "cat_is_unsolicited_event_buffered")
+# ---- status-returning functions whose tie is stated on (state, status) pairs: translated as
+#      state -> state * Z even when every `return` of the C function returns the same enumerator
+PAIR_FUNCTIONS = ("push_unsolicited_cmd", "pop_unsolicited_cmd", "hold_exit", "is_busy", "is_hold",
+                  "cat_is_busy", "cat_is_hold", "cat_is_unsolicited_buffer_full",
+                  "cat_trigger_unsolicited_event", "cat_hold_exit", "cat_service")
 
 # ---- enumerators ----
 ENUMERATORS = {}
@@ -186,6 +276,9 @@ _enum("fsm", "CAT_FSM_TYPE_", "", ["ATCMD"], [("CAT_FSM_TYPE_UNSOLICITED", "UNSO
 _enum("vaccess", "CAT_VAR_ACCESS_", "", [],
       [("CAT_VAR_ACCESS_READ_WRITE", "RW"), ("CAT_VAR_ACCESS_READ_ONLY", "RO"),
        ("CAT_VAR_ACCESS_WRITE_ONLY", "WO")])
+_enum("vtype", "CAT_VAR_", "", [],
+      [("CAT_VAR_INT_DEC", "VInt"), ("CAT_VAR_UINT_DEC", "VUint"), ("CAT_VAR_NUM_HEX", "VHex"),
+       ("CAT_VAR_BUF_HEX", "VBufHex"), ("CAT_VAR_BUF_STRING", "VBufStr")])
 _enum("Z", "CAT_STATUS_", "ST_", ["OK", "BUSY", "HOLD", "ERROR"],
       [("CAT_STATUS_ERROR_MUTEX_UNLOCK", "ST_MUTEX_UNLOCK"),
        ("CAT_STATUS_ERROR_MUTEX_LOCK", "ST_MUTEX_LOCK"),
@@ -204,9 +297,11 @@ CONSTRUCTORS = {
     "ctype": ["T_NONE", "T_RUN", "T_READ", "T_WRITE", "T_TEST", "T_TOTAL"],
     "fsm": ["ATCMD", "UNSOL"],
     "wstate": ["WS_BEFORE", "WS_MAIN", "WS_AFTER"],
+    "vaccess": ["RW", "RO", "WO"],
+    "vtype": ["VInt", "VUint", "VHex", "VBufHex", "VBufStr"],
 }
 BEQ = {"cstate": "cstate_beq", "ustate": "ustate_beq", "ctype": "ctype_beq",
-       "wstate": "wstate_beq", "fsm": "fsm_beq", "vaccess": "vaccess_beq"}
+       "wstate": "wstate_beq", "fsm": "fsm_beq", "vaccess": "vaccess_beq", "vtype": "vtype_beq"}
 
 # ---- object-like macros of cat.c whose NAME is lost in the AST: mapped BY VALUE.  The #define
 #      lines are re-read from the source on every run; if one of a group differs from this table,
@@ -254,8 +349,26 @@ STATE_HELPERS = {
     "set_cmd_state":                      ("set_cmd_state {s} {0} {1}", ["nat", "lane"]),
     "hold_exit":                          ("fst (hold_exit {s} {0})", ["Z"]),   # status ignored
 }
+# helpers that return a status AND may modify *self, called for their value:  x = f(self, ..) /
+# if (f(self, ..) CMP ..):  result kind, model term of type state * kind, argument kinds
+PAIR_HELPERS = {
+    # print_string_to_buf(self, str, fsm): 0 / -1  (HandlerTieLib.print_string_c = Fsm.print_string)
+    "print_string_to_buf":  ("Z", "print_string_c {1} {s} {0}", ["str", "fsm"]),
+    "hold_exit":            ("Z", "hold_exit {s} {0}", ["Z"]),
+    "push_unsolicited_cmd": ("Z", "push_unsolicited_cmd D {s} {0} {1}", ["cmdidx", "ctype"]),
+}
+# helpers with OUT-parameters (T *p, only written): result kind, model term of type
+# state * kind * option T1 * .. (None = *p not written), argument kinds, kinds of the out-parameters.
+# HandlerTieLib.pop_c is Fsm.pop_unsolicited_cmd seen that way.
+OUT_HELPERS = {
+    "pop_unsolicited_cmd":  ("Z", "pop_c D {s}", [], ["cmdptr", "ctype"]),
+}
+OUT_PARAM_KINDS = {"struct cat_command **": "cmdptr", "cat_cmd_type *": "ctype"}
 # pure helpers (called in expressions):  result kind,  model term,                 argument kinds
 VALUE_HELPERS = {
+    "get_new_line_chars":            ("str",   "nl_chars {s}", []),      # as a string to print
+    "is_busy":                       ("Z",     "is_busy {s}", []),
+    "is_hold":                       ("Z",     "is_hold {s}", []),
     "is_command_disable":            ("bool",  "is_command_disable D {s} {0}", ["nat"]),
     "is_variables_access_possible":  ("bool",  "vars_access_possible {0} {1}", ["cmdrec", "vaccess"]),
     "get_atcmd_buf_size":            ("nat",   "asz {s}", []),
@@ -272,6 +385,12 @@ PARTIAL_HELPERS = {
     "get_cmd_state":        ("lane",   "get_cmd_state D {s} {0}", ["nat"]),
     "get_command_by_index": ("cmdrec", "cmd_by_index (d_groups D) {0}", ["nat"]),
     "get_command_by_fsm":   ("cmdrec", "cmd_of D {0} {s}", ["fsm"]),
+    # self->var / self->unsolicited_fsm.var is the index of a variable of the current command
+    "get_var_by_fsm":       ("varrec", "var_of D {0} {s}", ["fsm"]),
+}
+# the same calls when the POINTER is the value (returned, not dereferenced): kind, term, arg kinds
+POINTER_VALUE_HELPERS = {
+    "get_command_by_fsm":   ("cmdptr", "g_cmd {0} {s}", ["fsm"]),
 }
 # ---- POINTER STORES (the only assignments of pointer type that are accepted):
 #   self->cmd = NULL                                   setk_cmd None          (same for u)
@@ -287,7 +406,8 @@ PARTIAL_HELPERS = {
 #   memset(get_atcmd_buf(self), V, get_atcmd_buf_size(self))           set_cbuf (repeat V (asz s)) s
 #   (the working buffer of the model IS the first get_atcmd_buf_size bytes of desc->buf, so a
 #    library call that fills exactly that many bytes replaces the whole of cbuf)
-LIBRARY_CALLS = ("strlen", "strncpy", "memset")
+#   strcpy(local char array, "LIT")  (LIT fits the array)                the local IS the string LIT
+LIBRARY_CALLS = ("strlen", "strncpy", "memset", "strcpy")
 
 # ---- what is translated (in this order) ----
 READING_STATES = ["error_state", "parse_prefix", "parse_command", "wait_read_acknowledge",
@@ -302,10 +422,20 @@ HANDLER_FUNCTIONS = [
     "end_processing_with_error", "end_processing_with_ok",
     "command_not_found", "start_print_cmd_list", "cmd_list_next_cmd",
     "ack_error", "ack_ok", "prepare_parse_command",
+    # the 2-bit lanes of the name-matching bitmap (C bit operations, tied by an exhaustive sweep)
+    "get_cmd_state", "set_cmd_state",
+    # loops over the descriptor tables (translated into structural recursions, tied by induction)
+    "get_command_by_index", "is_command_disable", "is_variables_access_possible",
+    # the queue of unsolicited events
+    "is_unsolicited_buffer_full", "is_unsolicited_buffer_empty", "push_unsolicited_cmd",
+    "pop_unsolicited_cmd", "check_unsolicited_buffers",
+    "get_command_by_fsm", "cat_get_processed_command", "cat_is_unsolicited_event_buffered",
+    "next_format_var_by_fsm", "print_response_test", "format_info_type",
 ]
 
 ASSUMED_HELPERS = sorted(
-    (set(STATE_HELPERS) | set(VALUE_HELPERS) | set(PARTIAL_HELPERS))
+    (set(STATE_HELPERS) | set(VALUE_HELPERS) | set(PARTIAL_HELPERS) | set(PAIR_HELPERS)
+     | set(OUT_HELPERS))
     - set(HANDLER_FUNCTIONS) - set(LEAF_HELPERS))
 
 # ---- the four loops that call a command handler: only what happens AFTER the call is translated
@@ -324,6 +454,7 @@ HANDLER_CALL_WRAPPERS = ("call_cmd_read_by_fsm", "call_cmd_test_by_fsm")
 #        f(self[, FSM]); s = CAT_STATUS_BUSY; break;             DBusy (H_f [FSM])
 #        if (is_unsolicited_buffer_empty(self) == false) { f(self); s = CAT_STATUS_BUSY; } break;
 #                                                                DIfEvents H_f
+#        f(self[, FSM]); break;                                  DCallOnly (H_f [FSM])   (s unchanged)
 #        s = CAT_STATUS_ERROR_UNKNOWN_STATE; break;              DUnknown
 #        break;                                                  DNothing
 DISPATCH_FUNCTIONS = {          # C function: (field the switch ranges over, Coq type of the state)
@@ -331,6 +462,21 @@ DISPATCH_FUNCTIONS = {          # C function: (field the switch ranges over, Coq
     "unsolicited_events_service": (("uns", "state"), "ustate"),
 }
 ENUM_VALUES = "enum_values"     # pseudo function: the numeric values of the Z-valued enumerators
+# ---- the public functions that take the mutex.  Shape (anything else is recorded in the generated
+#      HandlerTieLib.api_shape and makes the tie fail, or is refused):
+#          <declarations, asserts>
+#          if ((self->mutex != NULL) && (self->mutex->lock() != 0)) return E1;
+#          BODY                                    (no `return`, no use of self->mutex)
+#          if ((self->mutex != NULL) && (self->mutex->unlock() != 0)) return E2;
+#          return <expression over locals>;
+#      Generated: g_<f>_shape (what precedes the lock, E1, E2, returns inside BODY, what follows the
+#      unlock) and g_<f>_body = BODY + the final return, as a function state -> state * Z, tied to
+#      what the model passes to Fsm.bracket.  For cat_service (unit cat_service_bracket) BODY is
+#      instead described as a list of HandlerTieLib.body_item (order of the two machines) and the
+#      final merge of the two statuses is generated as g_cat_service_merge.
+API_FUNCTIONS = ["cat_is_busy", "cat_is_hold", "cat_is_unsolicited_buffer_full",
+                 "cat_trigger_unsolicited_event", "cat_hold_exit"]
+SERVICE_BRACKET = "cat_service_bracket"
 DISPATCH_HANDLERS = {           # C function name -> takes a cat_fsm_type argument?
     "error_state": False, "process_idle_state": False, "parse_prefix": False,
     "parse_command": False, "update_command": False, "wait_read_acknowledge": False,
@@ -436,6 +582,33 @@ def read_defines(src_dir):
     return ok
 
 
+_SOURCE_CACHE = {}
+
+
+def macro_name(node):
+    """Name of the object-like macro whose expansion `node` is exactly (None if it is not one):
+    the text of the source file at the expansion location reported by clang."""
+    r = node.get("range", {})
+    b, e = r.get("begin", {}).get("expansionLoc"), r.get("end", {}).get("expansionLoc")
+    if not b or not e or b.get("offset") != e.get("offset") or "file" not in b:
+        return None
+    if b.get("isMacroArgExpansion") or e.get("isMacroArgExpansion"):
+        return None
+    path = b["file"]
+    if path not in _SOURCE_CACHE:
+        try:
+            with open(path, "rb") as f:
+                _SOURCE_CACHE[path] = f.read()
+        except OSError:
+            _SOURCE_CACHE[path] = b""
+    text = _SOURCE_CACHE[path][b["offset"]:b["offset"] + b.get("tokLen", 0)]
+    try:
+        text = text.decode("ascii")
+    except UnicodeDecodeError:
+        return None
+    return text if re.fullmatch(r"[A-Za-z_]\w*", text) else None
+
+
 def node_line(node):
     for loc in (node.get("range", {}).get("begin", {}), node.get("loc", {})):
         loc = loc.get("expansionLoc", loc)
@@ -500,8 +673,10 @@ class Ex:
     """A lifted C expression: kind (section 1), Coq term; lit = python int for integer and
     character literals (which take the kind of what they are compared with / stored to)."""
 
-    def __init__(self, kind, term, lit=None):
+    def __init__(self, kind, term, lit=None, rng=None, ub=None):
         self.kind, self.term, self.lit = kind, term, lit
+        self.rng = rng      # kinds mint / lane: (lo, hi), an interval that contains the value
+        self.ub = ub        # kind nat: an upper bound of the value, when one is known
 
 
 def par(t):
@@ -540,6 +715,36 @@ def nlit(n):
     return CHAR_NAMES.get(n, "%d%%N" % n)
 
 
+def zlit(n):
+    return "%d%%Z" % n if n >= 0 else "(%d)%%Z" % n
+
+
+def c_type_name(node):
+    """Desugared spelling of the type of an expression node, without qualifiers."""
+    t = node.get("type", {})
+    spelled = t.get("desugaredQualType", t.get("qualType", ""))
+    return " ".join(w for w in spelled.split() if w not in ("const", "volatile"))
+
+
+INT_MIN, INT_MAX = -2 ** 31, 2 ** 31 - 1
+
+
+def bit_rng(op, a, b):
+    """Interval of a & b, a | b, a ^ b (two's complement, unbounded) from those of a and b."""
+    (al, ah), (bl, bh) = a, b
+    if op == "&":
+        if al >= 0 and bl >= 0:
+            return 0, min(ah, bh)
+        if al >= 0:
+            return 0, ah
+        if bl >= 0:
+            return 0, bh
+    if al >= 0 and bl >= 0:
+        return 0, (1 << max(ah, bh).bit_length()) - 1
+    m = max(abs(al), abs(bl), ah + 1, bh + 1, 1).bit_length()
+    return -(1 << m), (1 << m) - 1
+
+
 class Guard:
     """A partial read: `match scrut with fail_pat => <fault> | ok_pat => <body> end`."""
 
@@ -574,6 +779,18 @@ class FunctionTranslator:
         self.post_used = False
         self.aux = None                  # AuxRegistry: helpers of cat.c outside the mapping table
         self.call_override = {}          # clang id of a call already evaluated -> its value (Ex)
+        self.local_rng = {}              # Coq name of a uint8_t local -> interval of its value
+        self.local_ub = {}               # Coq name of a size_t local -> known upper bound
+        self.pure = True                 # no statement translated so far produced a new state
+        self.array_size = {}             # clang id of a local char array -> its size
+        self.table = None                # a constant table being translated, see table_switch()
+        self.out_ids = []                # clang ids of the OUT-parameters (T *p), in order
+        self.optional_names = set()      # Coq names of locals held as option (maybe unassigned)
+        self.loop = None                 # the for loop being translated (dict), see for_loop()
+        self.loop_continue = None        # Cont for `continue` / the end of the loop body
+        self.pre_defs = []               # definitions emitted before the function (loops)
+        self.top_kb = None               # the continuation "end of the function"
+        self.binders_all = []            # binders of the function's parameters (after D)
 
     # ---- names -----------------------------------------------------------------------
     def fresh(self, base, bare_first=False):
@@ -606,10 +823,20 @@ class FunctionTranslator:
             if kind == "bool" and n in (0, 1):
                 return Ex("bool", "true" if n else "false")
             if kind == "lane" and n in LANE_BY_VALUE and self.defines_ok["lane"]:
-                return Ex("lane", LANE_BY_VALUE[n])
+                return Ex("lane", LANE_BY_VALUE[n], rng=(n, n))
+            if kind == "lane" and n not in LANE_BY_VALUE and 0 <= n <= 255:
+                return Ex("lane", "%d%%N" % n, rng=(n, n))      # a plain uint8_t constant
+            if kind == "mint" and -2 ** 31 <= n < 2 ** 31:
+                return Ex("mint", zlit(n), rng=(n, n))
             if kind == "wstate" and n in WSTATE_BY_VALUE and self.defines_ok["wstate"]:
                 return Ex("wstate", WSTATE_BY_VALUE[n])
             refuse(node, "integer literal %d used where a %s is expected" % (n, kind))
+        if ex.kind == "cmdidx" and kind == "cmdptr":  # a non-NULL command pointer
+            return Ex("cmdptr", "Some %s" % par(ex.term))
+        if ex.kind == "lane" and kind == "byte":      # uint8_t -> char: the same byte
+            return Ex("byte", ex.term)
+        if ex.kind == "lane" and kind == "mint":      # integer promotion uint8_t -> int
+            return Ex("mint", "Z.of_N %s" % par(ex.term), rng=ex.rng or (0, 255))
         refuse(node, "a %s is used where a %s is expected" % (ex.kind, kind))
 
     # ---- self and its fields ---------------------------------------------------------------
@@ -658,16 +885,33 @@ class FunctionTranslator:
         kind = node.get("kind")
         if kind == "DeclRefExpr":
             did = node.get("referencedDecl", {}).get("id")
+            if self.loop is not None and did == self.loop["index_id"]:
+                refuse(node, "the loop index is used other than as %s" % self.loop["shape"])
             if did in self.const_locals:
                 return Ex("int", None, lit=self.const_locals[did])
             if did in env:
                 name, k = env[did]
                 if name is None:
                     refuse(node, "local variable read before it is assigned")
-                return Ex(k, name)
+                if did in self.out_ids:
+                    refuse(node, "an out-parameter is read")
+                if name in self.optional_names:       # written only if the callee wrote *p
+                    t = self.fresh("t")
+                    G.append(Guard(name, "None", "Some " + t))
+                    return Ex(k, t)
+                return Ex(k, name, rng=self.local_rng.get(name, (0, 255)) if k == "lane" else None,
+                          ub=self.local_ub.get(name))
             refuse(node, "read of an unmapped variable '%s'"
                    % node.get("referencedDecl", {}).get("name"))
         if kind == "MemberExpr":
+            opt = self.optional_string(node, s, env, G)
+            if opt is not None:                   # printed: NULL would be a fault
+                t = self.fresh("t")
+                G.append(Guard(opt, "None", "Some " + t))
+                return Ex("str", t)
+            special = self.struct_member(node, s, env, G)
+            if special is not None:
+                return special
             f = self.field_of(node)
             if f is None:
                 refuse(node, "unmapped member access '.%s'" % node.get("name"))
@@ -683,6 +927,9 @@ class FunctionTranslator:
                 k, proj, _ = table[f[1]]
                 if k in ("wbuf", "varidx"):
                     refuse(node, "field '%s' is only mapped for the listed pointer stores" % f[1])
+                if any(env[i][1] == k for i in self.out_ids):
+                    refuse(node, "field '%s' is read in a function with an out-parameter that "
+                                 "may point to it" % f[1])
                 return Ex(k, "%s (%s %s)" % (proj, rec, s))
             if f[1] not in CMD_FIELDS:
                 refuse(node, "command field '%s' is not in the mapping table" % f[1])
@@ -691,16 +938,108 @@ class FunctionTranslator:
             return Ex(k, tmpl.format(c=c))
         if kind == "ArraySubscriptExpr":
             base, idx = node["inner"]
+            if self.is_loop_element(node):
+                return Ex(self.loop["kind"], self.loop["elem"])
+            if self.is_self_call(strip_casts(base), "get_atcmd_buf"):
+                # get_atcmd_buf(self)[e]: a read outside the working buffer is a fault
+                i = self.coerce(idx, self.ex(idx, s, env, G), "nat")
+                t = self.fresh("t")
+                G.append(Guard("nth_error (cbuf %s) %s" % (s, par(i.term)), "None", "Some " + t))
+                return Ex("byte", t)
             b = self.ex(base, s, env, G)
             if b.kind != "cstr":
-                refuse(node, "array read that is not cmd->name[i]")
+                refuse(node, "array read that is not cmd->name[i] / get_atcmd_buf(self)[i]")
             i = self.coerce(idx, self.ex(idx, s, env, G), "nat")
             t = self.fresh("t")
             G.append(Guard("nth_error %s %s" % (par(b.term), par(i.term)), "None", "Some " + t))
             return Ex("byte", t)
         refuse(node, "read of an lvalue of kind %s" % kind)
 
+    # ---- structures reached through a mapped pointer ---------------------------------------------
+    def local_kind(self, node, env):
+        """Kind of the local variable / parameter that `node` (casts stripped) names, else None."""
+        n = strip_casts(node)
+        if n.get("kind") == "DeclRefExpr":
+            ent = env.get(n.get("referencedDecl", {}).get("id"))
+            if ent is not None and ent[0] is not None:
+                return ent[1], ent[0]
+        return None, None
+
+    def group_cmd_element(self, node, s, env, G):
+        """node = g->cmd[e] with g a group.  -> (term of g, term of e) or None."""
+        node = strip(node)
+        if node.get("kind") != "ArraySubscriptExpr":
+            return None
+        m = strip_casts(node["inner"][0])
+        if m.get("kind") != "MemberExpr" or m.get("name") != "cmd" or not m.get("isArrow"):
+            return None
+        k, g = self.local_kind(m["inner"][0], env)
+        if k != "grp":
+            return None
+        e = self.coerce(node["inner"][1], self.ex(node["inner"][1], s, env, G), "nat")
+        return g, e.term
+
+    def struct_member(self, node, s, env, G):
+        """x->f with x a group / a variable descriptor, and g->cmd[e].disable; else None."""
+        base, name = strip(node["inner"][0]), node.get("name")
+        if node.get("isArrow"):
+            k, x = self.local_kind(base, env)
+            if k == "grp":
+                if name not in GRP_FIELDS:
+                    refuse(node, "group field '%s' is not in the mapping table" % name)
+                kk, tmpl = GRP_FIELDS[name]
+                return Ex(kk, tmpl.format(g=x, s=s))
+            if k == "varrec":
+                if name not in VAR_FIELDS:
+                    refuse(node, "variable field '%s' is not in the mapping table" % name)
+                kk, tmpl = VAR_FIELDS[name]
+                return Ex(kk, tmpl.format(v=x, s=s))
+            if k == "ringref":
+                if name not in ("cmd", "type"):
+                    refuse(node, "field '%s' of a queue entry is not in the mapping table" % name)
+                scrut = "nth_error (u_ring (u %s)) %s" % (s, par(x))
+                same = [g for g in G if g.scrut == scrut and g.fail_pat == "None"]
+                if same:                             # the same entry was already read
+                    t = same[0].ok_pat.split()[1]
+                else:
+                    t = self.fresh("t")
+                    G.append(Guard(scrut, "None", "Some " + t))
+                return Ex("cmdidx", "fst %s" % t) if name == "cmd" else Ex("ctype", "snd %s" % t)
+            return None
+        ge = self.group_cmd_element(base, s, env, G)
+        if ge is not None:
+            if name != "disable":
+                refuse(node, "g->cmd[e].%s is not in the mapping table" % name)
+            return Ex("bool", "nthb (dis_cmd %s) (grp_off %s + %s)" % (s, ge[0], opnd(ge[1])))
+        return None
+
+    def is_loop_element(self, node):
+        """node = ARRAY[i] for the array and the index of the loop being translated."""
+        if self.loop is None:
+            return False
+        node = strip(node)
+        if node.get("kind") != "ArraySubscriptExpr":
+            return False
+        base, idx = strip_casts(node["inner"][0]), strip_casts(node["inner"][1])
+        return idx.get("kind") == "DeclRefExpr" \
+            and idx.get("referencedDecl", {}).get("id") == self.loop["index_id"] \
+            and self.loop["is_array"](base)
+
+    def is_desc_member(self, node, name):
+        """node = self->desc-><name>"""
+        n = strip_casts(node)
+        if n.get("kind") != "MemberExpr" or n.get("name") != name or not n.get("isArrow"):
+            return False
+        d = strip_casts(n["inner"][0])
+        return d.get("kind") == "MemberExpr" and d.get("name") == "desc" and d.get("isArrow") \
+            and self.is_self(d["inner"][0])
+
     # ---- calls -------------------------------------------------------------------------------
+    def is_self_call(self, c, fname):
+        """c is exactly  fname(self)."""
+        return c.get("kind") == "CallExpr" and self.callee_name(c) == fname \
+            and len(c["inner"]) == 2 and self.is_self(c["inner"][1])
+
     def callee_name(self, call):
         c = call["inner"][0]
         while c.get("kind") in ("ImplicitCastExpr", "ParenExpr"):
@@ -746,14 +1085,33 @@ class FunctionTranslator:
             if a.kind == "cstr":
                 return Ex("nat", "length %s" % par(a.term))
             refuse(node, "strlen of something that is not a command name")
+        if name in self.defined_in_tu and self.aux is not None and name not in LIBRARY_CALLS:
+            # a helper of cat.c outside the mapping table, used for its value: translated on the
+            # fly; accepted if it is a pure function (mode opt: partial; pair: must not modify *self)
+            sig = self.aux_signature(node, name)
+            if sig["mode"] == "opt":
+                t = self.fresh("t")
+                G.append(Guard(self.aux_call(node, sig, s, env, G), "None", "Some " + t))
+                return Ex(sig["ret_kind"], t)
+            if sig["mode"] == "pair" and sig.get("pure"):
+                return Ex(sig["ret_kind"], "snd (%s)" % self.aux_call(node, sig, s, env, G))
+            refuse(node, "call of '%s' (not in the mapping table) in an expression, and it is "
+                         "not a pure function" % name)
         refuse(node, "call of '%s', which is not in the mapping table" % name)
 
     # ---- general expressions ---------------------------------------------------------------------
     def ex(self, node, s, env, G):
+        if node.get("kind") in ("ParenExpr", "CStyleCastExpr", "IntegerLiteral"):
+            m = macro_name(node)
+            if m in MACRO_CONSTANTS:
+                k, term = MACRO_CONSTANTS[m]
+                return Ex(k, term)
         node = strip(node)
         kind = node.get("kind")
         if kind in ("IntegerLiteral", "CharacterLiteral"):
             return Ex("int", None, lit=int(node["value"]))
+        if kind == "StringLiteral":
+            return Ex("str", self.string_literal(node))
         if kind == "DeclRefExpr" and node.get("referencedDecl", {}).get("kind") == "EnumConstantDecl":
             name = node["referencedDecl"].get("name")
             if name not in ENUMERATORS:
@@ -767,8 +1125,15 @@ class FunctionTranslator:
             if ck in ("IntegralCast", "NoOp", "IntegralToBoolean"):
                 e = self.ex(sub, s, env, G)
                 if ck == "IntegralToBoolean":
+                    if e.kind == "intcond":             # (c) ? 1 : 0 converted to bool
+                        ct, x, y = e.term
+                        return Ex("bool", "if %s then %s else %s" % (
+                            ct, "true" if x != 0 else "false", "true" if y != 0 else "false"))
                     return self.coerce(node, e, "bool")
                 if ck == "IntegralCast" and e.kind != "int":
+                    conv = self.int_conversion(node, e)
+                    if conv is not None:
+                        return conv
                     src, dst = int_bits(strip(sub)), int_bits(node)
                     if src is None or dst is None or dst < src:
                         refuse(node, "narrowing or non-integer conversion")
@@ -780,8 +1145,11 @@ class FunctionTranslator:
             if ck in ("NullToPointer",):
                 return Ex("null", None)
             if ck in ("BitCast", "ArrayToPointerDecay") and node.get("kind") == "ImplicitCastExpr":
+                if ck == "ArrayToPointerDecay" and strip(sub).get("kind") == "DeclRefExpr" and \
+                        env.get(strip(sub).get("referencedDecl", {}).get("id"), (None, None))[1] == "str":
+                    return self.read_lvalue(sub, s, env, G)          # a local string buffer
                 e = self.ex(sub, s, env, G)
-                if e.kind in ("null", "cmdrec", "cmdptr", "cstr"):
+                if e.kind in ("null", "cmdrec", "cmdptr", "cstr", "str"):
                     return e
             refuse(node, "conversion of kind %s" % ck)
         if kind == "MemberExpr" or kind == "ArraySubscriptExpr":
@@ -796,6 +1164,20 @@ class FunctionTranslator:
                 e = self.ex(sub, s, env, G)
                 if e.kind == "int":
                     return Ex("int", None, lit=-e.lit)
+            if op == "&":
+                a = strip(sub)
+                if a.get("kind") == "ArraySubscriptExpr" and \
+                        self.field_of(strip_casts(a["inner"][0])) == ("uns", "unsolicited_cmd_buffer"):
+                    i = self.coerce(a["inner"][1], self.ex(a["inner"][1], s, env, G), "nat")
+                    return Ex("ringref", i.term)
+                if self.is_loop_element(a) and self.loop["kind"] == "varrec":
+                    return Ex("varrec", self.loop["elem"])           # &c->var[i]
+                ge = self.group_cmd_element(a, s, env, G)
+                if ge is not None:                                   # &g->cmd[e]: a descriptor
+                    return Ex("cmdrecopt", "nth_error (grp_cmds %s) %s" % (ge[0], par(ge[1])))
+            if op == "~" and c_type_name(node) == "int":
+                e = self.as_mint(sub, self.ex(sub, s, env, G))
+                return Ex("mint", "Z.lnot %s" % par(e.term), rng=(-e.rng[1] - 1, -e.rng[0] - 1))
             refuse(node, "unary operator '%s' in an expression" % op)
         if kind == "BinaryOperator":
             op = node.get("opcode")
@@ -806,6 +1188,12 @@ class FunctionTranslator:
                 folded = self.fold(node, op, a, b, s, env)
                 if folded is not None:
                     return folded
+            if op in ("<<", ">>", "&", "|", "^", "+", "-") and c_type_name(node) == "int":
+                ea = self.as_mint(a, self.ex(a, s, env, G))
+                eb = self.as_mint(b, self.ex(b, s, env, G), shift_amount=op in ("<<", ">>"))
+                return self.mint_op(node, op, ea, eb)
+            if op in ("<<", ">>", "&", "%") and c_type_name(node) == "unsigned long":
+                return self.nat_op(node, op, self.ex(a, s, env, G), self.ex(b, s, env, G))
             if op == "+":
                 ea, eb = self.ex(a, s, env, G), self.ex(b, s, env, G)
                 if ea.kind == "nat" and eb.kind == "int" and eb.lit == 1:
@@ -819,7 +1207,11 @@ class FunctionTranslator:
                     t = self.fresh("t")     # x - 1 on size_t: x = 0 would wrap around -> fault
                     G.append(Guard(ea.term, "O", "S " + t))
                     return Ex("nat", t)
-                refuse(node, "'-' other than `x - 1` on a size_t")
+                if ea.kind == "nat" and eb.kind == "nat":
+                    # a - b on size_t: b > a would wrap around -> fault
+                    G.append(Guard("%s <=? %s" % (opnd(eb.term), opnd(ea.term)), "false", "true"))
+                    return Ex("nat", "%s - %s" % (opnd(ea.term), opnd(eb.term)), ub=ea.ub)
+                refuse(node, "'-' on operands that are not size_t")
             refuse(node, "binary operator '%s'" % op)
         if kind == "ConditionalOperator":
             c, a, b = node["inner"]
@@ -835,6 +1227,119 @@ class FunctionTranslator:
                 refuse(node, "branches of ?: of different kinds (%s, %s)" % (ea.kind, eb.kind))
             return Ex(ea.kind, "if %s then %s else %s" % (ct, ea.term, eb.term))
         refuse(node, "expression of kind %s" % kind)
+
+    # ---- machine integers (C integer promotion made explicit) --------------------------------------
+    # uint8_t values are N (kind lane); the `int` they are promoted to is Z (kind mint), with the
+    # mathematical operations of Z.  That IS the C operation as long as no operation is undefined
+    # or implementation-defined and the result fits `int`: this is checked HERE, on intervals
+    # (refused otherwise).  The conversions back to uint8_t are explicit: HandlerTieLib.u8.
+    def as_mint(self, node, e, shift_amount=False):
+        if e.kind == "mint":
+            return e
+        if e.kind == "int":
+            return self.coerce(node, e, "mint")
+        if e.kind == "lane":
+            return self.coerce(node, e, "mint")
+        if e.kind == "nat" and shift_amount:       # the right operand of a shift keeps its own type
+            if e.ub is None:
+                refuse(node, "shift by a size_t amount that has no known bound")
+            return Ex("mint", "Z.of_nat %s" % par(e.term), rng=(0, e.ub))
+        refuse(node, "a %s is used in integer arithmetic" % e.kind)
+
+    def mint_op(self, node, op, ea, eb):
+        (al, ah), (bl, bh) = ea.rng, eb.rng
+        if op in ("+", "-"):
+            rng = (al + bl, ah + bh) if op == "+" else (al - bh, ah - bl)
+            if rng[0] < INT_MIN or rng[1] > INT_MAX:
+                refuse(node, "'%s' whose result is not known to fit an int" % op)
+            return Ex("mint", "(%s %s %s)%%Z" % (opnd(ea.term), op, opnd(eb.term)), rng=rng)
+        if op in ("<<", ">>"):
+            if bl < 0 or bh > 31:
+                refuse(node, "shift amount not known to be in [0, 31] (undefined behaviour)")
+            if al < 0:
+                refuse(node, "shift of a possibly negative value")
+            if op == "<<":
+                rng, fn = (al << bl, ah << bh), "Z.shiftl"
+            else:
+                rng, fn = (al >> bh, ah >> bl), "Z.shiftr"
+        else:
+            rng, fn = bit_rng(op, ea.rng, eb.rng), {"&": "Z.land", "|": "Z.lor", "^": "Z.lxor"}[op]
+        if rng[0] < INT_MIN or rng[1] > INT_MAX:
+            refuse(node, "'%s' whose result is not known to fit an int" % op)
+        return Ex("mint", "%s %s %s" % (fn, par(ea.term), par(eb.term)), rng=rng)
+
+    def nat_op(self, node, op, ea, eb):
+        """>> << % by a literal and & on size_t (nat: no wrap-around, so << needs a bound)."""
+        if ea.kind == "int" and op == "&":
+            ea, eb = eb, ea
+        if ea.kind != "nat":
+            refuse(node, "'%s' on a %s" % (op, ea.kind))
+        if op == "&":
+            eb = self.coerce(node, eb, "nat") if eb.kind == "int" else eb
+            if eb.kind != "nat":
+                refuse(node, "'&' of a size_t and a %s" % eb.kind)
+            ubs = [u for u in (ea.ub, eb.ub) if u is not None]
+            return Ex("nat", "Nat.land %s %s" % (par(ea.term), par(eb.term)), ub=min(ubs) if ubs else None)
+        if eb.kind != "int" or not 0 <= eb.lit < 31:
+            refuse(node, "'%s' on a size_t by something that is not a small literal" % op)
+        c = eb.lit
+        if op == ">>":
+            return Ex("nat", "%s / %d" % (opnd(ea.term), 2 ** c), ub=None if ea.ub is None else ea.ub >> c)
+        if op == "%":
+            if c == 0:
+                refuse(node, "modulo zero")
+            return Ex("nat", "%s mod %d" % (opnd(ea.term), c), ub=c - 1)
+        if ea.ub is None or (ea.ub << c) > INT_MAX:
+            refuse(node, "'<<' on a size_t value that has no known small bound (it could wrap around)")
+        return Ex("nat", "%s * %d" % (opnd(ea.term), 2 ** c), ub=ea.ub << c)
+
+    def int_conversion(self, node, e):
+        """Implicit/explicit integer conversions that involve uint8_t / char / int; None = the
+        general rule (a widening that keeps the kind) applies."""
+        dst = c_type_name(node)
+        if dst == "unsigned char":
+            if e.kind == "byte":                   # char -> uint8_t: the byte itself
+                return Ex("lane", "u8 (Z.of_N %s)" % par(e.term), rng=(0, 255))
+            if e.kind == "mint":                   # int -> uint8_t: modulo 256
+                ok = 0 <= e.rng[0] and e.rng[1] <= 255
+                return Ex("lane", "u8 %s" % par(e.term), rng=e.rng if ok else (0, 255))
+            if e.kind == "nat":
+                if e.ub is None or e.ub > 255:
+                    refuse(node, "conversion to uint8_t of a size_t value not known to be < 256")
+                return Ex("lane", "u8 (Z.of_nat %s)" % par(e.term), rng=(0, e.ub))
+            if e.kind == "lane":
+                return e
+        if dst == "char" and e.kind == "lane":
+            return Ex("byte", e.term)
+        if dst == "int" and e.kind == "mint":
+            return e
+        if e.kind == "mint":
+            refuse(node, "conversion of an int value to %s" % dst)
+        return None
+
+    def string_literal(self, node):
+        spelled = node.get("value", "")
+        if not re.fullmatch(r'"[ !#-\[\]-~]*"', spelled):        # printable ASCII, no " and no \
+            refuse(node, "string literal with an escape or a non-ASCII character")
+        return "[%s]%%N" % "; ".join(str(ord(c)) for c in spelled[1:-1])
+
+    def optional_string(self, node, s, env, G):
+        """node = x->f with (kind of x, f) in OPTIONAL_STRINGS -> the Coq term (an option), else None."""
+        n = strip_casts(node)
+        if n.get("kind") != "MemberExpr" or not n.get("isArrow"):
+            return None
+        k, x = self.local_kind(n["inner"][0], env)
+        if k == "varrec" and ("varrec", n.get("name")) in OPTIONAL_STRINGS:
+            return OPTIONAL_STRINGS[("varrec", n["name"])].format(x=x)
+        if ("cmdrec", n.get("name")) in OPTIONAL_STRINGS and k in (None, "cmdrec"):
+            f = self.field_of(n)
+            if f and f[0] == "cmd":
+                try:
+                    c = self.cmdrec_of(f[2], s, env, G)
+                except Unsupported:
+                    return None
+                return OPTIONAL_STRINGS[("cmdrec", n["name"])].format(x=par(c))
+        return None
 
     def fold(self, node, op, a, b, s, env):
         """Integer constant expression over literals: computed here (only while every
@@ -853,15 +1358,18 @@ class FunctionTranslator:
             refuse(node, "constant expression whose value leaves [0, 2^31)")
         return Ex("int", None, lit=v)
 
-    def value(self, node, kind, s, env, G):
-        """Translate `node` as a value of the given kind."""
+    def value_ex(self, node, kind, s, env, G):
+        """Translate `node` as a value of the given kind (an Ex of that kind)."""
         e = self.ex(node, s, env, G)
         if e.kind == "intcond":
             ct, x, y = e.term
             tx = self.coerce(node, Ex("int", None, lit=x), kind).term
             ty = self.coerce(node, Ex("int", None, lit=y), kind).term
-            return "if %s then %s else %s" % (ct, tx, ty)
-        return self.coerce(node, e, kind).term
+            return Ex(kind, "if %s then %s else %s" % (ct, tx, ty))
+        return self.coerce(node, e, kind)
+
+    def value(self, node, kind, s, env, G):
+        return self.value_ex(node, kind, s, env, G).term
 
     # ---- truth values ----------------------------------------------------------------------------
     CMP_NAT = {"==": "{a} =? {b}", "<": "{a} <? {b}", "<=": "{a} <=? {b}",
@@ -876,11 +1384,12 @@ class FunctionTranslator:
             idiom = self.vars_nonempty_idiom(a, b, s, env, G) if op == "&&" else None
             if idiom:
                 return idiom
-            G2 = []                               # the right operand is evaluated conditionally
-            tb = self.truth(b, s, env, G2)
-            if G2:
+            ta = self.truth(a, s, env, G)
+            G2 = list(G)                          # the right operand is evaluated conditionally: it
+            tb = self.truth(b, s, env, G2)        # may only repeat partial reads already made
+            if len(G2) != len(G):
                 refuse(b, "partial read in the right operand of %s" % op)
-            return "%s %s %s" % (opnd(self.truth(a, s, env, G)), op, opnd(tb))
+            return "%s %s %s" % (opnd(ta), op, opnd(tb))
         if kind == "UnaryOperator" and op == "!":
             return "negb %s" % par(self.truth(node["inner"][0], s, env, G))
         if kind == "BinaryOperator" and op in ("==", "!=", "<", "<=", ">", ">="):
@@ -922,8 +1431,38 @@ class FunctionTranslator:
             return None
         return "match c_vars %s with [] => false | _ :: _ => true end" % par(ca)
 
+    def var_null_idiom(self, a, b, op, s, env, G):
+        """c->var == NULL / != NULL  <->  c_vars c is / is not empty (the model's descriptor has
+        one list for var / var_num: var == NULL is identified with var_num == 0)."""
+        if op not in ("==", "!="):
+            return None
+        for x, y in ((a, b), (b, a)):
+            m = strip_casts(x)
+            f = self.field_of(m) if m.get("kind") == "MemberExpr" else None
+            if f and f[0] == "cmd" and f[1] == "var" and self.local_kind(f[2], env)[0] in (None, "cmdrec"):
+                try:
+                    if self.ex(y, s, env, []).kind != "null":
+                        return None
+                except Unsupported:
+                    return None
+                c = self.cmdrec_of(f[2], s, env, G)
+                yes, no = ("true", "false") if op == "==" else ("false", "true")
+                return "match c_vars %s with [] => %s | _ :: _ => %s end" % (par(c), yes, no)
+        return None
+
     def comparison(self, node, op, s, env, G):
         a, b = node["inner"]
+        idiom = self.var_null_idiom(a, b, op, s, env, G)
+        if idiom is not None:
+            return idiom
+        if op in ("==", "!="):
+            for x, y in ((a, b), (b, a)):
+                opt = self.optional_string(x, s, env, G)
+                if opt is not None:
+                    if self.ex(y, s, env, []).kind != "null":
+                        refuse(node, "an optional string compared with something else than NULL")
+                    yes, no = ("true", "false") if op == "==" else ("false", "true")
+                    return "match %s with None => %s | Some _ => %s end" % (opt, yes, no)
         ea, eb = self.ex(a, s, env, G), self.ex(b, s, env, G)
         neg = lambda t: "negb %s" % par(t)
         # pointers against NULL
@@ -945,6 +1484,13 @@ class FunctionTranslator:
                 if y.lit == 1 and x.kind == "bool":
                     return x.term if op == "==" else neg(x.term)
                 refuse(node, "truth value compared with %d" % y.lit)
+        if {ea.kind, eb.kind} == {"cmdptr", "cmdidx"} and op in ("==", "!="):
+            p, i = (ea, eb) if ea.kind == "cmdptr" else (eb, ea)      # a pointer against a non-NULL one
+            t = "match %s with Some c => c =? %s | None => false end" % (p.term, opnd(i.term))
+            return t if op == "==" else neg(t)
+        if ea.kind == "cmdidx" and eb.kind == "cmdidx" and op in ("==", "!="):
+            t = "(%s =? %s)" % (opnd(ea.term), opnd(eb.term))
+            return t if op == "==" else neg(t)
         if ea.kind == "int" and eb.kind == "int":
             refuse(node, "comparison of two literals")
         if ea.kind == "int":
@@ -963,7 +1509,7 @@ class FunctionTranslator:
             if op == "!=":
                 return neg("%s =? %s" % (ta, tb))
             return "(%s)" % self.CMP_NAT[op].format(a=ta, b=tb)
-        if k == "Z":
+        if k in ("Z", "mint"):
             if op == "!=":
                 return neg("(%s =? %s)%%Z" % (ta, tb))
             return "(%s)%%Z" % self.CMP_NAT[op].format(a=ta, b=tb)
@@ -1029,6 +1575,17 @@ def local_reads(nodes):
     return out
 
 
+def var_reads(nodes):
+    """ids of the local variables AND parameters referenced in the given statements."""
+    out = set()
+    for n in nodes:
+        for c in walk(n):
+            if c.get("kind") == "DeclRefExpr" and \
+                    c.get("referencedDecl", {}).get("kind") in ("VarDecl", "ParmVarDecl"):
+                out.add(c["referencedDecl"]["id"])
+    return out
+
+
 def local_writes(nodes):
     """ids of the local variables assigned in the given statements."""
     out = set()
@@ -1037,6 +1594,17 @@ def local_writes(nodes):
             if c.get("kind") in ("BinaryOperator", "CompoundAssignOperator") and \
                     (c.get("opcode") == "=" or c.get("kind") == "CompoundAssignOperator"):
                 tgt = strip(c["inner"][0])
+                if tgt.get("kind") == "UnaryOperator" and tgt.get("opcode") == "*":
+                    tgt = strip_casts(tgt["inner"][0])          # *p = e on an out-parameter
+                if tgt.get("kind") == "DeclRefExpr":
+                    out.add(tgt.get("referencedDecl", {}).get("id"))
+            if c.get("kind") == "UnaryOperator" and c.get("opcode") in ("++", "--"):
+                tgt = strip(c["inner"][0])
+                if tgt.get("kind") == "DeclRefExpr":
+                    out.add(tgt.get("referencedDecl", {}).get("id"))
+            if c.get("kind") == "CallExpr" and len(c.get("inner", [])) == 3 and \
+                    strip_casts(c["inner"][0]).get("referencedDecl", {}).get("name") == "strcpy":
+                tgt = strip_casts(c["inner"][1])            # strcpy(local array, ..)
                 if tgt.get("kind") == "DeclRefExpr":
                     out.add(tgt.get("referencedDecl", {}).get("id"))
     return out
@@ -1047,6 +1615,13 @@ class StatementTranslator(FunctionTranslator):
     # ---- results ------------------------------------------------------------------------------------
     def result(self, node, s, env, G, value_node):
         """Coq term for `return value_node;` in state s."""
+        if self.table is not None:               # inside a constant table: the arm answers None
+            if self.table["ret"] is not None and \
+                    self.value(self.table["ret"]["inner"][0], self.ret_kind, s, env, []) != \
+                    self.value(value_node, self.ret_kind, s, env, []):
+                refuse(node, "the arms of a constant table return different values")
+            self.table["ret"] = self.table["ret"] or node
+            return "(@None (list N))"
         if self.mode == "void":
             if value_node is not None:
                 refuse(node, "return with a value in a void function")
@@ -1055,12 +1630,43 @@ class StatementTranslator(FunctionTranslator):
             refuse(node, "return without a value")
         if self.mode == "const":
             return s                                    # the value was checked by find_mode()
-        return "(%s, %s)" % (s, self.value(value_node, self.ret_kind, s, env, G))
+        if self.mode == "opt" and self.ret_kind in ("cmdrecopt", "cmdptr"):
+            call = strip_casts(value_node)
+            if call.get("kind") == "CallExpr" and self.callee_name(call) in POINTER_VALUE_HELPERS \
+                    and POINTER_VALUE_HELPERS[self.callee_name(call)][0] == self.ret_kind:
+                name = self.callee_name(call)
+                _, tmpl, kinds = POINTER_VALUE_HELPERS[name]
+                return tmpl.format(*self.call_args(call, name, kinds, s, env, G), s=s)
+            e = self.ex(value_node, s, env, G)
+            if e.kind == "null":
+                return self.none()
+            if e.kind != self.ret_kind:
+                refuse(node, "the returned pointer is not one the mapping table knows")
+            return e.term
+        if self.mode == "opt":
+            return "Some %s" % par(self.value(value_node, self.ret_kind, s, env, G))
+        return "(%s)" % ", ".join([s, self.value(value_node, self.ret_kind, s, env, G)] + self.outs(env))
+
+    def none(self):
+        """None at the result type of a pure function (explicit: it may be all a branch says)."""
+        inner = {"cmdrecopt": "cmd", "cmdptr": "nat"}.get(self.ret_kind) or COQ_TYPE[self.ret_kind]
+        return "(@None %s)" % inner
+
+    def outs(self, env):
+        """Current values of the out-parameters: Some v / None (not written)."""
+        return ["Some %s" % par(env[i][0]) if env[i][0] is not None else "None" for i in self.out_ids]
+
+    FAULT_VALUE = {"Z": "fault_status", "bool": "false"}
 
     def function_end(self):
         def call(st, env, fault=False):
             if self.mode == "void" or (fault and self.mode == "const"):
                 return st
+            if fault and self.mode == "opt":
+                return self.none()
+            if fault and self.mode == "pair" and self.ret_kind in self.FAULT_VALUE:
+                # outside the verified envelope: the flag is set, the value is a fixed default
+                return "(%s)" % ", ".join([st, self.FAULT_VALUE[self.ret_kind]] + self.outs(env))
             if fault:
                 raise Unsupported("partial read at the top level of a function whose "
                                   "returned status varies")
@@ -1068,6 +1674,10 @@ class StatementTranslator(FunctionTranslator):
         return Cont(call)
 
     def fault(self, kb, s, env):
+        if self.table is not None:
+            raise Unsupported("partial read inside a constant table")
+        if self.mode == "opt":             # a pure function: the partial read makes it answer None
+            return self.none()
         st = "(set_fault_flag %s)" % s
         self.origin[st] = self.origin.get(s, (None, False))
         return kb.call(st, env, True)
@@ -1093,7 +1703,11 @@ class StatementTranslator(FunctionTranslator):
         for i in params:
             pname = self.fresh("x_" + self.local_names[i], True)
             inner_env[i] = (pname, env[i][1])
-            binders.append("(%s : %s)" % (pname, COQ_TYPE[env[i][1]]))
+            if env[i][0] in self.optional_names:
+                self.optional_names.add(pname)
+                binders.append("(%s : option %s)" % (pname, par(COQ_TYPE[env[i][1]])))
+            else:
+                binders.append("(%s : %s)" % (pname, COQ_TYPE[env[i][1]]))
         self.origin[sN] = (name, True)
         text = self.block(rest, sN, inner_env, kb, kbrk, later)
         if text == sN and not params:              # nothing left to do: no continuation needed
@@ -1140,21 +1754,41 @@ class StatementTranslator(FunctionTranslator):
 
         if kind == "BreakStmt":
             if kbrk is None:
-                refuse(S, "break outside a switch")
+                refuse(S, "break outside a switch / a loop")
             return kbrk.call(s, env, False)
+
+        if kind == "ContinueStmt":
+            if self.loop_continue is None:
+                refuse(S, "continue outside a loop")
+            return self.loop_continue.call(s, env, False)
+
+        if kind == "ForStmt":
+            return self.for_loop(S, rest, s, env, kb, later)
+
+        if kind == "WhileStmt":
+            return self.while_loop(S, rest, s, env, kb, later)
+
+        if kind == "DoStmt":
+            refuse(S, "do loop (only `for (i = 0; i < N; i++)` over a mapped array and "
+                      "`while (n > 0 ..) { .. --n; .. }` are supported)")
 
         if kind == "IfStmt":
             if S.get("hasInit") or S.get("hasVar") or len(S.get("inner", [])) not in (2, 3):
                 refuse(S, "if statement with initialiser/declaration")
-            pre, s1, c = self.condition(S["inner"][0], s, env, G)
+            pre, s1, c, env = self.condition(S["inner"][0], s, env, G)
+            self.check_pure(S, s, s1)
             let, kc = self.make_cont(S, rest, env, kb, kbrk, later)
             later2 = later | local_reads(rest)
             t = self.block([S["inner"][1]], s1, env, kc, kbrk, later2)
             e = self.block([S["inner"][2]] if len(S["inner"]) == 3 else [], s1, env, kc, kbrk, later2)
-            body = "%s%sif %s then\n%s\nelse\n%s" % (let, pre, c, ind(t), ind(e))
-            return self.wrap(G, body, kb, s, env)
+            # (what the condition runs first is bound before the continuation: the continuation may
+            #  use the out-values of a call made in the condition)
+            body = "%s%sif %s then\n%s\nelse\n%s" % (pre, let, c, ind(t), ind(e))
+            return self.wrap(G, body, kb, s, env0)
 
         if kind == "SwitchStmt":
+            if self.table is None and self.table_target(S) is not None:
+                return self.table_switch(S, rest, s, env, kb, kbrk, later)
             return self.switch(S, rest, s, env, kb, kbrk, later)
 
         if kind == "DeclStmt":
@@ -1179,6 +1813,7 @@ class StatementTranslator(FunctionTranslator):
 
         # expression statements
         text, s2, env2 = self.effect(S, s, env, G)
+        self.check_pure(S, s, s2)
         after = self.block(rest, s2, env2, kb, kbrk, later)
         m = re.fullmatch(r"let (\w+) := (.*) in\n", text)
         if m and m.group(1) == after:              # `let s2 := e in s2` is just `e`
@@ -1186,6 +1821,345 @@ class StatementTranslator(FunctionTranslator):
         else:
             body = text + after
         return self.wrap(G, body, kb, s, env0)
+
+    def check_pure(self, node, s_before, s_after):
+        if s_before != s_after and self.table is not None:
+            refuse(node, "a constant table modifies *self")
+        if s_before != s_after:
+            self.pure = False
+            if self.mode == "opt":
+                refuse(node, "a function translated as a pure function modifies *self")
+
+    # ---- constant tables ---------------------------------------------------------------------------
+    def table_target(self, S):
+        """S is a switch every arm of which is `strcpy(x, "LIT"); break;`, such a switch followed by
+        break, or `return <constant>;`, for one local string buffer x -> the clang id of x; else None.
+        Such a switch is a constant TABLE: it is generated as a definition of its own,
+        g_f_tabK .. : option (list N) (None: an arm that returns), so that it is tied separately
+        from the statements that use x."""
+        target = [None]
+
+        def arm_ok(stmts):
+            if len(stmts) == 1 and stmts[0].get("kind") == "ReturnStmt" and stmts[0].get("inner"):
+                v = strip_casts(stmts[0]["inner"][0])
+                if v.get("kind") == "UnaryOperator" and v.get("opcode") == "-":
+                    v = strip_casts(v["inner"][0])
+                return v.get("kind") == "IntegerLiteral"
+            if len(stmts) != 2 or stmts[1].get("kind") != "BreakStmt":
+                return False
+            n = strip(stmts[0])
+            if n.get("kind") == "SwitchStmt":
+                return switch_ok(n)
+            if n.get("kind") == "CallExpr" and self.callee_name(n) == "strcpy" and len(n["inner"]) == 3:
+                d = strip_casts(n["inner"][1])
+                did = d.get("referencedDecl", {}).get("id") if d.get("kind") == "DeclRefExpr" else None
+                if did is None or strip_casts(n["inner"][2]).get("kind") != "StringLiteral":
+                    return False
+                if target[0] is None:
+                    target[0] = did
+                return target[0] == did
+            return False
+
+        def switch_ok(sw):
+            if len(sw.get("inner", [])) != 2 or sw["inner"][1].get("kind") != "CompoundStmt":
+                return False
+            arms, cur = [], None
+            for item in sw["inner"][1].get("inner", []):
+                labelled = False
+                while item.get("kind") in ("CaseStmt", "DefaultStmt"):
+                    labelled, item = True, item["inner"][-1]
+                if labelled:
+                    cur = []
+                    arms.append(cur)
+                elif cur is None:
+                    return False
+                cur.append(item)
+            return bool(arms) and all(arm_ok(a) for a in arms)
+        return target[0] if switch_ok(S) and target[0] is not None else None
+
+    def table_switch(self, S, rest, s, env, kb, kbrk, later):
+        did = self.table_target(S)
+        if did not in env or env[did][1] != "str":
+            refuse(S, "table over something that is not a local string buffer")
+        used = [i for i in env if i in var_reads([S]) and i != did and env[i][0] is not None
+                and re.fullmatch(r"[\w']+", env[i][0])]
+        n = self.fresh("tab")[3:]
+        name = "g_%s_tab%s" % (self.gname_base, n)
+        self.table = {"target": did, "ret": None}
+        try:
+            text = self.switch(S, [], s, env,
+                               Cont(lambda st, e, fault=False: "Some %s" % par(e[did][0])), None, {did})
+        finally:
+            table, self.table = self.table, None
+        if s != "s":
+            text = re.sub(r"\b%s\b" % re.escape(s), "s", text)     # the state is the parameter s
+        self.pre_defs.append("Definition %s %s : option (list N) :=\n%s.\n" % (
+            name, " ".join(["(D : desc)"] + ["(%s : %s)" % (env[i][0], COQ_TYPE[env[i][1]]) for i in used]
+                           + ["(s : state)"]), ind(text)))
+        x = self.fresh("x_" + self.local_names[did], True)
+        env2 = dict(env)
+        env2[did] = (x, "str")
+        G = []
+        none = self.result(table["ret"], s, env, G, table["ret"]["inner"][0]) if table["ret"] \
+            else self.fault(kb, s, env)
+        body = self.block(rest, s, env2, kb, kbrk, later)
+        call = " ".join([name, "D"] + [par(env[i][0]) for i in used] + [s])
+        return self.wrap(G, "match %s with\n| None => %s\n| Some %s =>\n%s\nend" % (call, none, x, ind(body)),
+                         kb, s, env)
+
+    # ---- for loops over a mapped array ------------------------------------------------------------
+    def for_loop(self, S, rest, s, env, kb, later):
+        """for (i = 0; i < N; i++) BODY; REST   in a pure function, at the top level of its body:
+
+            Definition g_f_afterK D <vars> s : R := REST
+            Fixpoint   g_f_loopK D <vars not assigned in BODY> s (l : list E) <vars assigned in BODY> : R :=
+              match l with [] => g_f_afterK .. | e :: l' => BODY end
+          where, in BODY, ARRAY[i] is e, `continue` and the end of BODY call g_f_loopK on l',
+          `break` calls g_f_afterK, `return` answers.  The statement itself becomes the call of
+          g_f_loopK on the model list."""
+        if self.mode != "opt":
+            refuse(S, "loop in a function that is not translated as a pure function")
+        if self.loop is not None:
+            refuse(S, "nested loops")
+        if kb is not self.top_kb:
+            refuse(S, "loop that is not at the top level of the function body")
+        parts = S.get("inner", [])
+        if len(parts) != 5 or parts[1]:
+            refuse(S, "for statement with a condition variable / unexpected shape")
+        init, _, cond, inc, body = parts
+        # i = 0
+        init = strip(init) if init else {}
+        idx_id = None
+        if init.get("kind") == "BinaryOperator" and init.get("opcode") == "=":
+            tgt, zero = strip(init["inner"][0]), strip_casts(init["inner"][1])
+            if tgt.get("kind") == "DeclRefExpr" and zero.get("kind") == "IntegerLiteral" \
+                    and zero.get("value") == "0":
+                idx_id = tgt.get("referencedDecl", {}).get("id")
+        if idx_id is None or idx_id not in env or env[idx_id][1] != "nat":
+            refuse(S, "the loop does not start with `i = 0` on a size_t local")
+        # i++
+        inc = strip(inc) if inc else {}
+        if not (inc.get("kind") == "UnaryOperator" and inc.get("opcode") == "++" and
+                strip(inc["inner"][0]).get("referencedDecl", {}).get("id") == idx_id):
+            refuse(S, "the loop does not step with `i++`")
+        # i < N
+        cond = strip(cond) if cond else {}
+        ok = cond.get("kind") == "BinaryOperator" and cond.get("opcode") == "<"
+        if ok:
+            lhs, bound = strip_casts(cond["inner"][0]), strip_casts(cond["inner"][1])
+            ok = lhs.get("kind") == "DeclRefExpr" and lhs.get("referencedDecl", {}).get("id") == idx_id
+        if not ok:
+            refuse(S, "the loop condition is not `i < N`")
+        loop = {"index_id": idx_id}
+        if self.is_desc_member(bound, "cmd_group_num"):
+            loop.update(kind="grp", list="enum_groups (d_groups D) 0 0",
+                        shape="self->desc->cmd_group[i]",
+                        is_array=lambda b: self.is_desc_member(b, "cmd_group"))
+        else:
+            f = self.field_of(bound) if bound.get("kind") == "MemberExpr" else None
+            if not (f and f[0] == "cmd" and f[1] == "var_num"):
+                refuse(S, "the loop bound is not the length of a mapped array")
+            c = self.cmdrec_of(f[2], s, env, [])
+            base_id = strip_casts(f[2]).get("referencedDecl", {}).get("id")
+
+            def is_var_array(b):
+                fb = self.field_of(b) if b.get("kind") == "MemberExpr" else None
+                return bool(fb and fb[0] == "cmd" and fb[1] == "var" and
+                            strip_casts(fb[2]).get("referencedDecl", {}).get("id") == base_id
+                            and base_id is not None)
+            loop.update(kind="varrec", list="c_vars %s" % par(c), shape="c->var[i]",
+                        is_array=is_var_array)
+        body_items = body.get("inner", []) if body.get("kind") == "CompoundStmt" else [body]
+        written = local_writes(body_items)
+        if idx_id in written or any(
+                c.get("kind") == "UnaryOperator" and c.get("opcode") in ("++", "--") and
+                strip(c["inner"][0]).get("referencedDecl", {}).get("id") == idx_id
+                for b in body_items for c in walk(b)):
+            refuse(S, "the loop index is modified in the loop body")
+        after_reads = local_reads(rest) | later
+        if idx_id in after_reads:
+            refuse(S, "the loop index is read after the loop")
+        pointer_kinds = ("cmdrec", "grp", "varrec", "ringref")
+        carried = [i for i in env if i in written and env[i][1] not in pointer_kinds]
+        for i in written:
+            if i in env and env[i][1] in pointer_kinds and i in after_reads:
+                refuse(S, "a pointer assigned in the loop is used after it")
+        for i in carried:
+            if env[i][0] is None:
+                refuse(S, "local '%s' is assigned in the loop before it has a value"
+                       % self.local_names.get(i, "?"))
+        used = var_reads(body_items) | var_reads(rest) | after_reads
+        fixed = [i for i in env if i in used and i not in carried and i != idx_id
+                 and env[i][0] is not None and re.fullmatch(r"[\w']+", env[i][0])]
+        n = self.fresh("loop")[4:]
+        base = "g_%s" % self.gname_base
+        rtype = self.rtype_text
+
+        def binder(i, e):
+            return "(%s : %s)" % (e[i][0], COQ_TYPE[e[i][1]])
+
+        def args(e, ids):
+            out = []
+            for i in ids:
+                if e.get(i, (None,))[0] is None:
+                    raise Unsupported("local '%s' may be used uninitialised" % self.local_names.get(i, "?"))
+                out.append(par(e[i][0]))
+            return out
+        # REST
+        after_name = "%s_after%s" % (base, n)
+        self.origin["s"] = ("init", True)
+        after_text = self.block(rest, "s", env, kb, None, later)
+        self.pre_defs.append("Definition %s %s : %s :=\n%s.\n" % (
+            after_name, " ".join(["(D : desc)"] + [binder(i, env) for i in fixed] + ["(s : state)"] +
+                                 [binder(i, env) for i in carried]), rtype, ind(after_text)))
+
+        def call_after(st, e, fault=False):
+            return " ".join([after_name, "D"] + args(e, fixed) + [par(st)] + args(e, carried))
+        # BODY
+        loop_name, elem, tail = "%s_loop%s" % (base, n), self.fresh("e"), self.fresh("l")
+        loop["elem"] = elem
+
+        def call_loop(st, e, fault=False):
+            return " ".join([loop_name, "D"] + args(e, fixed) + [par(st), tail] + args(e, carried))
+        self.loop, saved = loop, self.loop_continue
+        self.loop_continue = Cont(call_loop)
+        try:
+            body_text = self.block(body_items, "s", env, self.loop_continue, Cont(call_after),
+                                   after_reads | set(carried))
+        finally:
+            self.loop, self.loop_continue = None, saved
+        self.pre_defs.append(
+            "Fixpoint %s %s {struct l} : %s :=\n  match l with\n  | [] => %s\n  | %s :: %s =>\n%s\n  end.\n" % (
+                loop_name,
+                " ".join(["(D : desc)"] + [binder(i, env) for i in fixed] + ["(s : state)",
+                         "(l : list %s)" % COQ_TYPE[loop["kind"]]] + [binder(i, env) for i in carried]),
+                rtype, call_after("s", env), elem, tail, ind(body_text, 4)))
+        return " ".join([loop_name, "D"] + args(env, fixed) + [par(s), par(loop["list"])] +
+                        args(env, carried))
+
+    def while_loop(self, S, rest, s, env, kb, later):
+        """while ((n > 0) && C) { BODY with exactly one top-level `--n;` }  REST   in a pure function,
+        at the top level of its body (a COUNTDOWN loop): a structural recursion on n.
+
+            Definition g_f_afterK D <vars> s n <assigned vars> : R := REST
+            Fixpoint   g_f_loopK D <vars> s (n : nat) <assigned vars> : R :=
+              match n with O => g_f_afterK .. 0 .. | S n' => if C then BODY else g_f_afterK .. (S n') .. end
+          in BODY n is S n' before `--n` and n' after it; the end of BODY calls g_f_loopK on n'."""
+        if self.mode != "opt":
+            refuse(S, "loop in a function that is not translated as a pure function")
+        if self.loop is not None:
+            refuse(S, "nested loops")
+        if kb is not self.top_kb:
+            refuse(S, "loop that is not at the top level of the function body")
+        parts = [x for x in S.get("inner", [])]
+        if len(parts) != 2:
+            refuse(S, "while statement with a condition variable")
+        cond, body = strip(parts[0]), parts[1]
+
+        def positive(c):
+            """c = `n > 0` / `n != 0` on a size_t local -> its id."""
+            c = strip(c)
+            if c.get("kind") == "BinaryOperator" and c.get("opcode") in (">", "!="):
+                a, z = strip_casts(c["inner"][0]), strip_casts(c["inner"][1])
+                if a.get("kind") == "DeclRefExpr" and z.get("kind") == "IntegerLiteral" and z.get("value") == "0":
+                    did = a.get("referencedDecl", {}).get("id")
+                    if did in env and env[did][1] == "nat":
+                        return did
+            return None
+        rest_cond = None
+        cid = positive(cond)
+        if cid is None and cond.get("kind") == "BinaryOperator" and cond.get("opcode") == "&&":
+            cid, rest_cond = positive(cond["inner"][0]), cond["inner"][1]
+        if cid is None or env[cid][0] is None:
+            refuse(S, "the loop condition is not `(n > 0) && ..` on a size_t local")
+        body_items = body.get("inner", []) if body.get("kind") == "CompoundStmt" else [body]
+
+        def is_dec(i):
+            i = strip(i)
+            return i.get("kind") == "UnaryOperator" and i.get("opcode") == "--" and \
+                strip(i["inner"][0]).get("referencedDecl", {}).get("id") == cid
+        decs = [i for i in body_items if is_dec(i)]
+        others = [i for i in body_items if not is_dec(i)]
+        if len(decs) != 1 or cid in local_writes(others):
+            refuse(S, "the loop body does not decrement its counter exactly once, at its top level")
+        if any(c.get("kind") == "ContinueStmt" for i in body_items for c in walk(i)):
+            refuse(S, "continue in a countdown loop")
+        if rest_cond is not None and cid in local_writes([rest_cond]):
+            refuse(S, "the loop condition modifies the counter")
+        written = local_writes(body_items)
+        after_reads = local_reads(rest) | later
+        pointer_kinds = ("cmdrec", "grp", "varrec", "ringref")
+        carried = [i for i in env if i in written and i != cid and env[i][1] not in pointer_kinds]
+        for i in written:
+            if i in env and env[i][1] in pointer_kinds and i in after_reads:
+                refuse(S, "a pointer assigned in the loop is used after it")
+        for i in carried:
+            if env[i][0] is None:
+                refuse(S, "local '%s' is assigned in the loop before it has a value"
+                       % self.local_names.get(i, "?"))
+        used = var_reads(body_items) | var_reads(rest) | after_reads | \
+            (var_reads([rest_cond]) if rest_cond is not None else set())
+        fixed = [i for i in env if i in used and i not in carried and i != cid
+                 and env[i][0] is not None and re.fullmatch(r"[\w']+", env[i][0])]
+        n = self.fresh("loop")[4:]
+        base, rtype = "g_%s" % self.gname_base, self.rtype_text
+        cname = "x_" + self.local_names[cid]
+        pred = self.fresh("n")
+
+        def binder(i, e):
+            return "(%s : %s)" % (e[i][0], COQ_TYPE[e[i][1]])
+
+        def args(e, ids):
+            out = []
+            for i in ids:
+                if e.get(i, (None,))[0] is None:
+                    raise Unsupported("local '%s' may be used uninitialised" % self.local_names.get(i, "?"))
+                out.append(par(e[i][0]))
+            return out
+        after_name, loop_name = "%s_after%s" % (base, n), "%s_loop%s" % (base, n)
+        env_def = dict(env)
+        env_def[cid] = (cname, "nat")
+        self.origin["s"] = ("init", True)
+        after_text = self.block(rest, "s", env_def, kb, None, later)
+        self.pre_defs.append("Definition %s %s : %s :=\n%s.\n" % (
+            after_name, " ".join(["(D : desc)"] + [binder(i, env) for i in fixed] +
+                                 ["(s : state)", "(%s : nat)" % cname] + [binder(i, env) for i in carried]),
+            rtype, ind(after_text)))
+
+        def call_after(st, e, fault=False):
+            return " ".join([after_name, "D"] + args(e, fixed) + [par(st)] + args(e, [cid]) + args(e, carried))
+
+        def call_loop(st, e, fault=False):
+            if e[cid][0] != pred:
+                raise Unsupported("the loop counter is not decremented on every path through the body")
+            return " ".join([loop_name, "D"] + args(e, fixed) + [par(st), pred] + args(e, carried))
+        env_body = dict(env)
+        env_body[cid] = ("(S %s)" % pred, "nat")
+        self.loop = {"index_id": None, "is_array": lambda b: False, "kind": None, "elem": None,
+                     "shape": "", "count_id": cid, "count_succ": "(S %s)" % pred, "count_pred": pred}
+        saved, self.loop_continue = self.loop_continue, None
+        try:
+            G = []
+            c_text = self.truth(rest_cond, "s", env_body, G) if rest_cond is not None else None
+            if G:
+                refuse(S, "partial read in the loop condition")
+            body_text = self.block(body_items, "s", env_body, Cont(call_loop), Cont(call_after),
+                                   after_reads | set(carried) | {cid})
+        finally:
+            self.loop, self.loop_continue = None, saved
+        if c_text is not None:
+            body_text = "if %s then\n%s\nelse\n%s" % (c_text, ind(body_text),
+                                                       ind(call_after("s", env_body)))
+        env_zero = dict(env)
+        env_zero[cid] = ("0", "nat")
+        self.pre_defs.append(
+            "Fixpoint %s %s {struct %s} : %s :=\n  match %s with\n  | O => %s\n  | S %s =>\n%s\n  end.\n" % (
+                loop_name,
+                " ".join(["(D : desc)"] + [binder(i, env) for i in fixed] +
+                         ["(s : state)", "(%s : nat)" % cname] + [binder(i, env) for i in carried]),
+                cname, rtype, cname, call_after("s", env_zero), pred, ind(body_text, 4)))
+        return " ".join([loop_name, "D"] + args(env, fixed) + [par(s)] + args(env, [cid]) +
+                        args(env, carried))
 
     def is_void_cast(self, S):
         n = strip(S)
@@ -1199,8 +2173,14 @@ class StatementTranslator(FunctionTranslator):
                  "_Bool": "bool", "cat_state": "cstate", "cat_unsolicited_state": "ustate",
                  "cat_cmd_type": "ctype", "cat_fsm_type": "fsm", "cat_var_access": "vaccess",
                  "uint8_t": "lane", "char": "byte", "int": "Z",
-                 "struct cat_command *": "cmdrec", "struct cat_command const *": "cmdrec"}
+                 "struct cat_command *": "cmdrec", "struct cat_command const *": "cmdrec",
+                 "struct cat_command_group *": "grp", "struct cat_variable *": "varrec",
+                 "struct cat_unsolicited_cmd *": "ringref"}
         q = q.replace("const struct", "struct")
+        m = re.fullmatch(r"char\[(\d+)\]", q)
+        if m:                               # a local string buffer, only filled by strcpy(.., "LIT")
+            self.array_size[d.get("id")] = int(m.group(1))
+            return "str"
         if q not in table:
             refuse(d, "variable of unmapped type '%s'" % t.get("qualType"))
         return table[q]
@@ -1224,15 +2204,24 @@ class StatementTranslator(FunctionTranslator):
     def bind_local(self, node, did, k, init, s, env, G):
         """`x = init` for the local `did` of kind k.  -> (new env, let-text)."""
         env = dict(env)
-        if k == "cmdrec":
+        if k in ("cmdrec", "grp", "varrec"):
             e = self.ex(init, s, env, G)
-            if e.kind != "cmdrec":
-                refuse(node, "command pointer initialised with something unmapped")
-            env[did] = (e.term, k)         # the variable bound by the guard's pattern
+            if e.kind != k:
+                refuse(node, "pointer variable initialised with something unmapped")
+            env[did] = (e.term, k)         # the variable bound by the guard's pattern / the loop
             return env, ""
+        return self.bind_local_ex(did, k, self.value_ex(init, k, s, env, G), env)
+
+    def bind_local_ex(self, did, k, e, env):
+        """The local `did` takes the value e (an Ex of kind k).  -> (new env, let-text)."""
+        env = dict(env)
         name = self.fresh("x_" + self.local_names[did], True)
         env[did] = (name, k)
-        return env, "let %s := %s in\n" % (name, self.value(init, k, s, env, G))
+        if k == "lane" and e.rng is not None:
+            self.local_rng[name] = (max(e.rng[0], 0), min(e.rng[1], 255))
+        if k == "nat" and e.ub is not None:
+            self.local_ub[name] = e.ub
+        return env, "let %s := %s in\n" % (name, e.term)
 
     # ---- conditions with the pre-increment idiom ------------------------------------------------------
     def condition(self, node, s, env, G):
@@ -1243,6 +2232,15 @@ class StatementTranslator(FunctionTranslator):
             if lhs.get("kind") == "UnaryOperator" and lhs.get("opcode") == "++" \
                     and not lhs.get("isPostfix"):
                 tgt = strip(lhs["inner"][0])
+                if tgt.get("kind") == "DeclRefExpr":        # ++x CMP e on a size_t local
+                    did = tgt.get("referencedDecl", {}).get("id")
+                    if did in var_reads([n["inner"][1]]):
+                        refuse(n, "the incremented variable is also read in the same condition")
+                    text, _, env1 = self.local_step(lhs, did, s, env, G)
+                    fake = dict(n)
+                    fake["inner"] = [{"kind": "ImplicitCastExpr", "castKind": "LValueToRValue",
+                                      "type": tgt.get("type", {}), "inner": [tgt]}, n["inner"][1]]
+                    return text, s, self.truth(fake, s, env1, G), env1
                 f = self.field_of(tgt)
                 if any(self.field_of(c) == f for c in walk(n["inner"][1])
                        if c.get("kind") == "MemberExpr"):
@@ -1252,25 +2250,32 @@ class StatementTranslator(FunctionTranslator):
                 fake = dict(n)
                 fake["inner"] = [{"kind": "ImplicitCastExpr", "castKind": "LValueToRValue",
                                   "type": tgt.get("type", {}), "inner": [tgt]}, n["inner"][1]]
-                return text, s1, self.truth(fake, s1, env, G)
+                return text, s1, self.truth(fake, s1, env, G), env
         for c in walk(n):
             if c.get("kind") == "UnaryOperator" and c.get("opcode") in ("++", "--"):
                 refuse(c, "side effect inside a condition (only `++self->f CMP e` is supported)")
         call = self.leading_call(n)
+        if call is not None and (self.callee_name(call) in PAIR_HELPERS or
+                                 self.callee_name(call) in OUT_HELPERS):
+            text, s1, val, env1 = self.stateful_call(call, s, env, G)
+            self.call_override[call["id"]] = val
+            return text, s1, self.truth(n, s1, env1, G), env1
         if call is not None and self.callee_name(call) not in VALUE_HELPERS \
                 and self.callee_name(call) not in PARTIAL_HELPERS \
                 and self.callee_name(call) not in LIBRARY_CALLS:
             # the condition starts by calling a helper outside the mapping table: it is run first
             # (it may modify *self), the test is then made on its result in the new state
             sig = self.aux_signature(call, self.callee_name(call))
+            if sig["mode"] == "opt" or (sig["mode"] == "pair" and sig.get("pure")):
+                return "", s, self.truth(n, s, env, G), env     # a pure helper: see value_call
             if sig["mode"] != "pair":
                 refuse(call, "the value of a void/constant-status helper is tested")
             r, s1 = self.fresh("r"), self.fresh("s")
             self.origin[s1] = (self.origin.get(s, (None, False))[0], False)
             text = "let %s := %s in\nlet %s := fst %s in\n" % (r, self.aux_call(call, sig, s, env, G), s1, r)
             self.call_override[call["id"]] = Ex(sig["ret_kind"], "snd %s" % r)
-            return text, s1, self.truth(n, s1, env, G)
-        return "", s, self.truth(n, s, env, G)
+            return text, s1, self.truth(n, s1, env, G), env
+        return "", s, self.truth(n, s, env, G), env
 
     def leading_call(self, n):
         """The call in  f(..) / !f(..) / f(..) CMP <literal or enumerator>,  else None."""
@@ -1323,39 +2328,107 @@ class StatementTranslator(FunctionTranslator):
 
     def incr(self, node, tgt, s, env, G):
         f, (k, proj, setter) = self.setter(node, tgt)
-        if k != "nat" or node.get("opcode") != "++":
+        if k != "nat" or node.get("opcode") not in ("++", "--"):
             refuse(node, "'%s' on something that is not a size_t field" % node.get("opcode"))
         s1 = self.same_cmd(s, self.fresh("s"))
         rec = "k" if f[0] == "obj" else "u"
+        if node.get("opcode") == "--":          # 0 - 1 would wrap around -> fault
+            t = self.fresh("t")
+            G.append(Guard("%s (%s %s)" % (proj, rec, s), "O", "S " + t))
+            return "let %s := %s %s %s in\n" % (s1, setter, t, s), s1, env
         return "let %s := %s (S (%s (%s %s))) %s in\n" % (s1, setter, proj, rec, s, s), s1, env
+
+    def local_step(self, node, did, s, env, G):
+        """++x / --x / x++ / x-- (value unused) on a size_t local.  -> (let-text, s, new env)."""
+        if did not in env or env[did][1] != "nat" or did in self.out_ids:
+            refuse(node, "'%s' on something that is not a size_t local" % node.get("opcode"))
+        name = env[did][0]
+        if name is None:
+            refuse(node, "local variable read before it is assigned")
+        if node.get("opcode") == "++":
+            return (lambda r: (r[1], s, r[0]))(self.bind_local_ex(did, "nat", Ex("nat", "S %s" % par(name)), env))
+        if self.loop is not None and did == self.loop.get("count_id") and name == self.loop["count_succ"]:
+            env = dict(env)                       # the counter of a countdown loop: it is S n' here
+            env[did] = (self.loop["count_pred"], "nat")
+            return "", s, env
+        t = self.fresh("t")                       # 0 - 1 would wrap around -> fault
+        G.append(Guard(name, "O", "S " + t))
+        return (lambda r: (r[1], s, r[0]))(self.bind_local_ex(did, "nat", Ex("nat", t), env))
 
     def effect(self, S, s, env, G):
         """An expression statement.  -> (let-text, new state name, new env)."""
         n = strip(S)
         kind = n.get("kind")
         if kind == "UnaryOperator" and n.get("opcode") in ("++", "--"):
-            return self.incr(n, strip(n["inner"][0]), s, env, G)
+            tgt = strip(n["inner"][0])
+            if tgt.get("kind") == "DeclRefExpr":
+                return self.local_step(n, tgt.get("referencedDecl", {}).get("id"), s, env, G)
+            return self.incr(n, tgt, s, env, G)
         if kind == "CallExpr":
             name = self.callee_name(n)
             if name in ("strncpy", "memset"):
                 return self.fill_buffer(n, name, s, env, G)
+            if name == "strcpy" and name not in self.defined_in_tu and len(n["inner"]) == 3:
+                dst, src = strip_casts(n["inner"][1]), strip_casts(n["inner"][2])
+                did = dst.get("referencedDecl", {}).get("id") if dst.get("kind") == "DeclRefExpr" else None
+                if did not in self.array_size or src.get("kind") != "StringLiteral":
+                    refuse(n, "strcpy other than (local char array, string literal)")
+                lit = self.string_literal(src)
+                if len(src.get("value", "")) - 2 + 1 > self.array_size[did]:
+                    refuse(n, "strcpy of a literal that does not fit the array")
+                env2, text = self.bind_local_ex(did, "str", Ex("str", lit), env)
+                return text, s, env2
             if name in STATE_HELPERS:
                 tmpl, kinds = STATE_HELPERS[name]
                 term = tmpl.format(*self.call_args(n, name, kinds, s, env, G), s=s)
+            elif name in PAIR_HELPERS or name in OUT_HELPERS:     # the returned value is not used
+                text, s1, _, env1 = self.stateful_call(n, s, env, G)
+                return text, s1, env1
             else:
                 sig = self.aux_signature(n, name)
+                if sig["mode"] == "opt" or sig.get("out_kinds"):
+                    refuse(n, "call of '%s' as a statement" % name)
                 term = self.aux_call(n, sig, s, env, G)
                 if sig["mode"] == "pair":               # the returned value is not used
                     term = "fst (%s)" % term
             s1 = self.fresh("s")
             self.origin[s1] = (self.origin.get(s, (None, False))[0], False)
             return "let %s := %s in\n" % (s1, term), s1, env
+        if kind == "CompoundAssignOperator":
+            return self.compound_assign(n, s, env, G)
         if kind == "BinaryOperator" and n.get("opcode") == "=":
             tgt, rhs = strip(n["inner"][0]), n["inner"][1]
+            if tgt.get("kind") == "UnaryOperator" and tgt.get("opcode") == "*":
+                d = strip_casts(tgt["inner"][0])                      # *p = e, p an out-parameter
+                did = d.get("referencedDecl", {}).get("id") if d.get("kind") == "DeclRefExpr" else None
+                if did not in self.out_ids:
+                    refuse(n, "store through a pointer that is not an out-parameter")
+                k = env[did][1]
+                env2, text = self.bind_local_ex(did, k, self.value_ex(rhs, k, s, env, G), env)
+                return text, s, env2
+            if tgt.get("kind") == "MemberExpr" and tgt.get("isArrow") \
+                    and self.local_kind(tgt["inner"][0], env)[0] == "ringref":
+                x = self.local_kind(tgt["inner"][0], env)[1]          # item->cmd = v / item->type = v
+                if tgt.get("name") == "cmd":
+                    fn = "(fun it => (%s, snd it))" % self.value(rhs, "cmdidx", s, env, G)
+                elif tgt.get("name") == "type":
+                    fn = "(fun it => (fst it, %s))" % self.value(rhs, "ctype", s, env, G)
+                else:
+                    refuse(n, "store to field '%s' of a queue entry" % tgt.get("name"))
+                s1 = self.same_cmd(s, self.fresh("s"))
+                return "let %s := ring_store %s %s %s in\n" % (s1, par(x), fn, s), s1, env
             if tgt.get("kind") == "DeclRefExpr":                      # local variable
                 did = tgt.get("referencedDecl", {}).get("id")
                 if did not in env:
                     refuse(n, "assignment to an unmapped variable")
+                if did in self.out_ids:
+                    refuse(n, "assignment to an out-parameter itself")
+                call = strip_casts(rhs)
+                if call.get("kind") == "CallExpr" and self.is_stateful_callee(call):
+                    text, s1, val, env1 = self.stateful_call(call, s, env, G)
+                    k = env[did][1]
+                    env2, t2 = self.bind_local_ex(did, k, self.coerce(rhs, val, k), env1)
+                    return text + t2, s1, env2
                 env2, text = self.bind_local(n, did, env[did][1], rhs, s, env, G)
                 return text, s, env2
             if tgt.get("kind") == "ArraySubscriptExpr":
@@ -1372,6 +2445,104 @@ class StatementTranslator(FunctionTranslator):
                 self.origin[s1] = (self.origin.get(s, (None, False))[0], False)
             return "let %s := %s %s %s in\n" % (s1, setter, par(v), s), s1, env
         refuse(S, "statement of kind %s" % kind)
+
+    def compound_assign(self, n, s, env, G):
+        """x OP= e on a local: uint8_t (>>= <<= &= |= ^=: computed in int, converted back to
+        uint8_t) or size_t (+= -=)."""
+        op = n.get("opcode", "")[:-1]
+        tgt, rhs = strip(n["inner"][0]), n["inner"][1]
+        did = tgt.get("referencedDecl", {}).get("id") if tgt.get("kind") == "DeclRefExpr" else None
+        if did is None or did not in env:
+            refuse(n, "compound assignment to something that is not a local variable")
+        name, k = env[did]
+        if name is None:
+            refuse(n, "local variable read before it is assigned")
+        cur = Ex(k, name, rng=self.local_rng.get(name, (0, 255)) if k == "lane" else None,
+                 ub=self.local_ub.get(name))
+        if k == "lane" and op in ("<<", ">>", "&", "|", "^"):
+            if n.get("computeResultType", {}).get("qualType") != "int":
+                refuse(n, "compound assignment not computed in int")
+            ea = self.as_mint(tgt, cur)
+            eb = self.as_mint(rhs, self.ex(rhs, s, env, G), shift_amount=op in ("<<", ">>"))
+            res = self.int_conversion({"type": {"qualType": "unsigned char"}}, self.mint_op(n, op, ea, eb))
+            env2, text = self.bind_local_ex(did, k, res, env)
+            return text, s, env2
+        if k == "nat" and op in ("+", "-"):
+            eb = self.coerce(rhs, self.ex(rhs, s, env, G), "nat")
+            if op == "+":
+                res = Ex("nat", "%s + %s" % (opnd(cur.term), opnd(eb.term)))
+            else:
+                G.append(Guard("%s <=? %s" % (opnd(eb.term), opnd(cur.term)), "false", "true"))
+                res = Ex("nat", "%s - %s" % (opnd(cur.term), opnd(eb.term)), ub=cur.ub)
+            env2, text = self.bind_local_ex(did, k, res, env)
+            return text, s, env2
+        refuse(n, "compound assignment '%s=' on a %s" % (op, k))
+
+    # ---- calls that return a value AND may modify *self ------------------------------------------
+    def is_stateful_callee(self, call):
+        name = self.callee_name(call)
+        if name in PAIR_HELPERS or name in OUT_HELPERS:
+            return True
+        if name is None or name in STATE_HELPERS or name in VALUE_HELPERS or name in PARTIAL_HELPERS \
+                or name in LIBRARY_CALLS or name in HANDLER_CALL_WRAPPERS or self.aux is None \
+                or name not in self.defined_in_tu:
+            return False
+        try:
+            sig = self.aux.get(name, self.reading)
+        except Unsupported:
+            return False
+        return sig["mode"] == "pair" and not sig.get("pure") and not sig.get("out_kinds")
+
+    def stateful_call(self, call, s, env, G):
+        """r = f(self, args[, &out..]) run in state s.  -> (let-text, new state, value (Ex), new env).
+        An out-argument is  &local  (the local becomes an OPTION: Some v if the callee wrote it) or
+        &self->field (the field is stored if the callee wrote it)."""
+        name = self.callee_name(call)
+        outk, out_args = [], []
+        if name in PAIR_HELPERS:
+            k, tmpl, kinds = PAIR_HELPERS[name]
+            term = tmpl.format(*self.call_args(call, name, kinds, s, env, G), s=s)
+        elif name in OUT_HELPERS:
+            k, tmpl, kinds, outk = OUT_HELPERS[name]
+            args = call["inner"][1:]
+            if len(args) != 1 + len(kinds) + len(outk):
+                refuse(call, "call of %s with an unexpected number of arguments" % name)
+            out_args = args[1 + len(kinds):]
+            fake = dict(call)
+            fake["inner"] = call["inner"][:2 + len(kinds)]
+            term = tmpl.format(*self.call_args(fake, name, kinds, s, env, G), s=s)
+        else:
+            sig = self.aux_signature(call, name)
+            k, term = sig["ret_kind"], self.aux_call(call, sig, s, env, G)
+        r, s1 = self.fresh("r"), self.fresh("s")
+        env = dict(env)
+        if not outk:
+            text = "let %s := %s in\nlet %s := fst %s in\n" % (r, term, s1, r)
+            value = Ex(k, "snd %s" % r)
+        else:
+            onames = [self.fresh("o") for _ in outk]
+            text = "let '(%s) := %s in\n" % (", ".join([s1, r] + onames), term)
+            value = Ex(k, r)
+            for a, ok, o in zip(out_args, outk, onames):
+                a = strip_casts(a)
+                x = strip(a["inner"][0]) if a.get("kind") == "UnaryOperator" and a.get("opcode") == "&" else {}
+                did = x.get("referencedDecl", {}).get("id") if x.get("kind") == "DeclRefExpr" else None
+                f = self.field_of(x) if x.get("kind") == "MemberExpr" else None
+                if did in env and env[did][1] == ok and did not in self.out_ids:
+                    env[did] = (o, ok)
+                    self.optional_names.add(o)
+                elif f and f[0] in ("obj", "uns"):
+                    _, (fk, proj, setter) = self.setter(call, x)
+                    if fk != ok:
+                        refuse(a, "out-argument of the wrong kind")
+                    s2 = self.fresh("s")
+                    text += "let %s := match %s with Some v => %s v %s | None => %s end in\n" % (
+                        s2, o, setter, s1, s1)
+                    s1 = s2
+                else:
+                    refuse(a, "out-argument that is neither &local nor &self->field")
+        self.origin[s1] = (self.origin.get(s, (None, False))[0], False)
+        return text, s1, value, env
 
     def fill_buffer(self, n, name, s, env, G):
         """strncpy(get_atcmd_buf(self), "LIT", get_atcmd_buf_size(self)) and
@@ -1402,9 +2573,12 @@ class StatementTranslator(FunctionTranslator):
     def buffer_store(self, node, tgt, rhs, s, env, G):
         """get_atcmd_buf(self)[i] = v   /   get_atcmd_buf(self)[self->f++] = v"""
         base, idx = strip_casts(tgt["inner"][0]), strip(tgt["inner"][1])
-        if base.get("kind") != "CallExpr" or self.callee_name(base) != "get_atcmd_buf" \
-                or len(base["inner"]) != 2 or not self.is_self(base["inner"][1]):
-            refuse(node, "array store that is not into get_atcmd_buf(self)")
+        if self.is_self_call(base, "get_atcmd_buf"):
+            store = "store_c"
+        elif self.is_self_call(base, "get_unsolicited_buf"):
+            store = "store_u"
+        else:
+            refuse(node, "array store that is not into get_atcmd_buf(self) / get_unsolicited_buf(self)")
         post = None
         if idx.get("kind") == "UnaryOperator" and idx.get("opcode") == "++" and idx.get("isPostfix"):
             post = idx
@@ -1418,7 +2592,7 @@ class StatementTranslator(FunctionTranslator):
         i = self.value(idx_read, "nat", s, env, G)
         v = self.value(rhs, "byte", s, env, G)
         s1 = self.same_cmd(s, self.fresh("s"))
-        text = "let %s := store_c %s %s %s in\n" % (s1, par(i), par(v), s)
+        text = "let %s := %s %s %s %s in\n" % (s1, store, par(i), par(v), s)
         if post is not None:                      # the increment reads the field, not the buffer
             t2, s2, _ = self.incr(post, strip(post["inner"][0]), s1, env, G)
             return text + t2, s2, env
@@ -1584,9 +2758,20 @@ def find_mode(tr, decl, body_items):
     if ret == "void":
         tr.mode = "void"
         return
-    kinds = {"cat_status": "Z", "bool": "bool", "_Bool": "bool"}
+    if ret == "uint8_t":                  # pure and partial: state -> option N
+        tr.mode, tr.ret_kind = "opt", "lane"
+        return
+    if tr.fn in POINTER_RETURN:           # pure: state -> option cmd / option nat
+        if not ret.endswith("*") or "struct cat_command" not in ret:
+            refuse(decl, "return type '%s' is not a command pointer" % ret)
+        tr.mode, tr.ret_kind = "opt", POINTER_RETURN[tr.fn]
+        return
+    kinds = {"cat_status": "Z", "bool": "bool", "_Bool": "bool", "int": "Z"}
     if ret not in kinds:
         refuse(decl, "return type '%s' is not mapped" % ret)
+    if tr.fn in PURE_FUNCTIONS:
+        tr.mode, tr.ret_kind = "opt", kinds[ret]
+        return
     tr.ret_kind = kinds[ret]
     names = set()
     for item in body_items:
@@ -1595,7 +2780,7 @@ def find_mode(tr, decl, body_items):
                 v = strip_casts(n["inner"][0]) if n.get("inner") else {}
                 d = v.get("referencedDecl", {})
                 names.add(d.get("name") if d.get("kind") == "EnumConstantDecl" else None)
-    if len(names) == 1 and None not in names and tr.ret_kind == "Z":
+    if len(names) == 1 and None not in names and ret == "cat_status" and tr.fn not in PAIR_FUNCTIONS:
         name = names.pop()
         if name not in ENUMERATORS:
             refuse(decl, "returned enumerator %s is not in the mapping table" % name)
@@ -1672,9 +2857,12 @@ class AuxRegistry:
         return [r["coq_name"] for r in self.done.values() if r["status"] == "translated"]
 
 
-def translate_function(fn, decls, defines_ok, defined_in_tu=frozenset(), aux=None, as_aux=None):
+def translate_function(fn, decls, defines_ok, defined_in_tu=frozenset(), aux=None, as_aux=None,
+                       fragment=None):
     """-> (coq text or None, report entry).  as_aux: None for a tied function; '' or '_rd' for an
-    auxiliary function ('_rd': called from the body of a reading state)."""
+    auxiliary function ('_rd': called from the body of a reading state).
+    fragment = (suffix, statements, [(clang id of a local, kind)]): translate only these statements
+    of the function, as g_<fn><suffix>, the listed locals being extra parameters."""
     if not decls:
         return None, {"status": "missing"}
     try:
@@ -1694,14 +2882,38 @@ def translate_function(fn, decls, defines_ok, defined_in_tu=frozenset(), aux=Non
         env, binders, param_kinds = {}, [], []
         for p in params[1:]:
             q = " ".join(w for w in p.get("type", {}).get("qualType", "").split() if w != "const")
-            if q not in PARAM_KINDS:
+            if q in OUT_PARAM_KINDS:               # T *p, only written: an OUT-parameter
+                env[p["id"]] = (None, OUT_PARAM_KINDS[q])
+                tr.local_names[p["id"]] = p.get("name", "anon")
+                tr.out_ids.append(p["id"])
+                continue
+            if q == "struct cat_command *":
+                # a command pointer parameter: a descriptor if the function reads through it,
+                # else (only stored / compared) the non-NULL index of a command
+                deref = any(c.get("kind") == "MemberExpr" and c.get("isArrow") and
+                            strip_casts(c["inner"][0]).get("referencedDecl", {}).get("id") == p["id"]
+                            for c in walk(body))
+                pk = "cmdrec" if deref else "cmdidx"
+            elif q in PARAM_KINDS:
+                pk = PARAM_KINDS[q]
+            else:
                 refuse(p, "parameter of unmapped type '%s'" % p.get("type", {}).get("qualType"))
             name = "p_" + p.get("name", "anon")
-            env[p["id"]] = (name, PARAM_KINDS[q])
+            env[p["id"]] = (name, pk)
             tr.local_names[p["id"]] = p.get("name", "anon")
-            binders.append("(%s : %s)" % (name, COQ_TYPE[PARAM_KINDS[q]]))
-            param_kinds.append(PARAM_KINDS[q])
+            binders.append("(%s : %s)" % (name, COQ_TYPE[pk]))
+            param_kinds.append(pk)
         items = body.get("inner", [])
+        if fragment is not None:
+            items = fragment[1]
+            for c in walk(body):
+                if c.get("kind") == "VarDecl" and c.get("id") in dict(fragment[2]):
+                    k = dict(fragment[2])[c["id"]]
+                    name = "p_" + c.get("name", "anon")
+                    env[c["id"]] = (name, k)
+                    tr.local_names[c["id"]] = c.get("name", "anon")
+                    binders.append("(%s : %s)" % (name, COQ_TYPE[k]))
+                    param_kinds.append(k)
         tr.written_locals = local_writes(items)
         post = fn in POST_CALL_FUNCTIONS and as_aux is None
         if post:
@@ -1713,7 +2925,22 @@ def translate_function(fn, decls, defines_ok, defined_in_tu=frozenset(), aux=Non
         if prologue:
             items = split_reading_prologue(tr, items)
         find_mode(tr, d, items)
-        term = tr.block(items, "s", env, tr.function_end(), None, set())
+        if as_aux is not None:
+            gname = "g_aux_%s%s" % (fn, as_aux)
+        else:
+            gname = "g_%s%s" % (fn, "_body" if reading else "_post" if post else
+                                fragment[0] if fragment else "")
+        tr.gname_base = gname[2:]
+        rtype = "state * %s" % COQ_TYPE[tr.ret_kind] if tr.mode == "pair" else \
+            COQ_TYPE[tr.ret_kind] if tr.ret_kind in ("cmdrecopt", "cmdptr") else \
+            "option %s" % COQ_TYPE[tr.ret_kind] if tr.mode == "opt" else "state"
+        if tr.out_ids:
+            if tr.mode != "pair":
+                raise Unsupported("out-parameters in a function that does not return a varying status")
+            rtype += "".join(" * option %s" % par(COQ_TYPE[env[i][1]]) for i in tr.out_ids)
+        tr.rtype_text = rtype
+        tr.top_kb = tr.function_end()
+        term = tr.block(items, "s", env, tr.top_kb, None, set(tr.out_ids))
         if tr.uses_cmd_deref:
             if tr.assigns_obj_cmd:
                 raise Unsupported("the function both dereferences and assigns self->cmd")
@@ -1725,20 +2952,17 @@ def translate_function(fn, decls, defines_ok, defined_in_tu=frozenset(), aux=Non
         last = last.get("expansionLoc", last).get("line")
         if post and not tr.post_used:
             raise Unsupported("the handler call was not found where it is expected")
-        if as_aux is not None:
-            gname = "g_aux_%s%s" % (fn, as_aux)
-        else:
-            gname = "g_%s%s" % (fn, "_body" if reading else "_post" if post else "")
         ch = ["(ch : N)"] if reading else ["(code : Z)"] if post else []
-        rtype = "state * %s" % COQ_TYPE[tr.ret_kind] if tr.mode == "pair" else "state"
-        text = "(* cat.c:%s-%s  %s *)\nDefinition %s %s : %s :=\n%s.\n" % (
-            first, last, d.get("type", {}).get("qualType", "").replace("*)", "* )"), gname,
+        text = "(* cat.c:%s-%s  %s *)\n%sDefinition %s %s : %s :=\n%s.\n" % (
+            first, last, d.get("type", {}).get("qualType", "").replace("*)", "* )"),
+            "".join(tr.pre_defs), gname,
             " ".join(["(D : desc)"] + binders + ch + ["(s : state)"]), rtype, ind(term))
         if tr.mode == "const":
             text += "Definition %s_status : Z := %s.\n" % (gname, tr.const_status)
         return text, {"status": "translated", "coq_name": gname, "c_name": fn, "lines": [first, last],
                       "mode": tr.mode, "const_status": tr.const_status, "ret_kind": tr.ret_kind,
-                      "param_kinds": param_kinds}
+                      "param_kinds": param_kinds, "pure": tr.pure,
+                      "out_kinds": [env[i][1] for i in tr.out_ids]}
     except Unsupported as e:
         return None, {"status": "unsupported", "why": str(e)}
     except (KeyError, IndexError, TypeError, ValueError, AttributeError) as e:
@@ -1763,6 +2987,167 @@ def translate_enum_values(enums):
            "Definition g_enum_values : list (Z * Z) :=\n  [%s].\n" % ";\n   ".join(pairs)
     return text, {"status": "translated", "coq_name": "g_enum_values", "lines": [None, None],
                   "mode": "table", "const_status": None}
+
+
+def mutex_test(tr, S):
+    """S = `if ((self->mutex != NULL) && (self->mutex->OP() != 0)) return E;`  ->  (OP, E) with
+    OP in lock/unlock and E an enumerator name; None if S is not of that shape."""
+    if S.get("kind") != "IfStmt" or len(S.get("inner", [])) != 2 or S.get("hasInit") or S.get("hasVar"):
+        return None
+    cond, then = strip(S["inner"][0]), S["inner"][1]
+    if cond.get("kind") != "BinaryOperator" or cond.get("opcode") != "&&":
+        return None
+    a, b = strip(cond["inner"][0]), strip(cond["inner"][1])
+
+    def is_mutex(n):
+        n = strip_casts(n)
+        return n.get("kind") == "MemberExpr" and n.get("name") == "mutex" and n.get("isArrow") \
+            and tr.is_self(n["inner"][0])
+    if not (a.get("kind") == "BinaryOperator" and a.get("opcode") == "!=" and is_mutex(a["inner"][0])):
+        return None
+    try:
+        if tr.ex(a["inner"][1], "s", {}, []).kind != "null":
+            return None
+    except Unsupported:
+        return None
+    if not (b.get("kind") == "BinaryOperator" and b.get("opcode") == "!="):
+        return None
+    call, zero = strip_casts(b["inner"][0]), strip_casts(b["inner"][1])
+    if zero.get("kind") != "IntegerLiteral" or zero.get("value") != "0":
+        return None
+    if call.get("kind") != "CallExpr" or len(call.get("inner", [])) != 1:
+        return None
+    callee = strip_casts(call["inner"][0])
+    if not (callee.get("kind") == "MemberExpr" and callee.get("isArrow")
+            and callee.get("name") in ("lock", "unlock") and is_mutex(callee["inner"][0])):
+        return None
+    if then.get("kind") == "CompoundStmt" and len(then.get("inner", [])) == 1:
+        then = then["inner"][0]
+    v = strip_casts(then["inner"][0]) if then.get("kind") == "ReturnStmt" and then.get("inner") else {}
+    d = v.get("referencedDecl", {})
+    if d.get("kind") != "EnumConstantDecl":
+        return None
+    return callee["name"], d.get("name")
+
+
+def translate_api(fn, decls, defines_ok, defined_in_tu, aux, service=False):
+    """A public function that takes the mutex (API_FUNCTIONS; service: cat_service).
+    -> (coq text or None, report entry)."""
+    if not decls:
+        return None, {"status": "missing"}
+    try:
+        if len(decls) != 1:
+            raise Unsupported("several definitions named %s" % fn)
+        d = decls[0]
+        tr = StatementTranslator(fn, d, defines_ok, False)
+        params = [c for c in d["inner"] if c.get("kind") == "ParmVarDecl"]
+        body = [c for c in d["inner"] if c.get("kind") == "CompoundStmt"][0]
+        if not params or params[0].get("type", {}).get("qualType") != "struct cat_object *":
+            refuse(d, "first parameter is not `struct cat_object *self`")
+        tr.self_id = params[0]["id"]
+        items = [i for i in body.get("inner", []) if not is_assert(i)]
+        tests = [(n, mutex_test(tr, i)) for n, i in enumerate(items)]
+        locks = [n for n, m in tests if m and m[0] == "lock"]
+        unlocks = [n for n, m in tests if m and m[0] == "unlock"]
+        if len(locks) != 1 or len(unlocks) != 1 or locks[0] > unlocks[0]:
+            refuse(d, "expected one `if ((self->mutex != NULL) && (self->mutex->lock() != 0)) return E;` "
+                      "followed by one such test of unlock() at the top level of the function, found "
+                      "%d and %d" % (len(locks), len(unlocks)))
+        li, ui = locks[0], unlocks[0]
+        for which, n in (("lock", li), ("unlock", ui)):
+            e = tests[n][1][1]
+            if e not in ENUMERATORS or ENUMERATORS[e][0] != "Z":
+                refuse(items[n], "status %s returned when %s() fails is not in the mapping table" % (e, which))
+        if not items or items[-1].get("kind") != "ReturnStmt" or ui == len(items) - 1:
+            refuse(d, "the function does not end with a return statement after the unlock test")
+
+        def touches_self(i):
+            return any(c.get("kind") == "DeclRefExpr" and
+                       c.get("referencedDecl", {}).get("id") == tr.self_id for c in walk(i))
+
+        def local_decl(i):                 # declarations of locals that do not involve *self
+            return i.get("kind") == "DeclStmt" and not touches_self(i) and \
+                not any(c.get("kind") == "CallExpr" for c in walk(i))
+        decl_items = [i for i in items[:li] if local_decl(i)]
+        pre, post = [], []
+        for where, group, out in (("before the lock test", items[:li], pre),
+                                  ("after the unlock test", items[ui + 1:-1], post)):
+            for i in group:
+                if local_decl(i) and out is pre:
+                    continue
+                if not touches_self(i):    # not about the bracket, but it is not translated either
+                    refuse(i, "a statement %s is neither a declaration nor about *self" % where)
+                out.append(node_line(i) or 0)
+        between = items[li + 1:ui]
+        final = items[-1]
+        inner_returns = sum(1 for i in between for c in walk(i) if c.get("kind") == "ReturnStmt")
+        extra_mutex = sum(1 for n, i in enumerate(items) if n not in (li, ui) for c in walk(i)
+                          if c.get("kind") == "MemberExpr" and c.get("name") == "mutex")
+        ret_pure = not any(c.get("kind") == "DeclRefExpr" and
+                           c.get("referencedDecl", {}).get("id") == tr.self_id for c in walk(final))
+        shape = "(mkApiShape [%s] %s %s %d %d [%s] %s)" % (
+            "; ".join(map(str, pre)), ENUMERATORS[tests[li][1][1]][1], ENUMERATORS[tests[ui][1][1]][1],
+            inner_returns, extra_mutex, "; ".join(map(str, post)), "true" if ret_pure else "false")
+        first = node_line(d)
+        last = d.get("range", {}).get("end", {})
+        last = last.get("expansionLoc", last).get("line")
+        if not service:
+            text = "(* cat.c:%s-%s  %s: the mutex bracket *)\nDefinition g_%s_shape : api_shape :=\n  %s.\n" % (
+                first, last, fn, fn, shape)
+            btext, rep = translate_function(fn, decls, defines_ok, defined_in_tu, aux=aux,
+                                            fragment=("_body", decl_items + between + [final], []))
+            if rep["status"] != "translated":
+                raise Unsupported("between lock and unlock: %s" % rep.get("why", rep["status"]))
+            return text + btext, {"status": "translated", "coq_name": "g_%s_shape" % fn,
+                                  "lines": [first, last], "mode": "api", "const_status": None}
+        # ---- cat_service: what stands between lock and unlock, in order
+        local_ids = {c["id"]: c for i in decl_items for c in i.get("inner", [])}
+        ret = strip_casts(final["inner"][0]) if final.get("inner") else {}
+        status_id = ret.get("referencedDecl", {}).get("id") if ret.get("kind") == "DeclRefExpr" else None
+        if status_id not in local_ids:
+            refuse(final, "the function does not end with `return <local status variable>;`")
+        order, us_id, merge = [], None, None
+        for i in between:
+            n = strip(i)
+            if n.get("kind") == "BinaryOperator" and n.get("opcode") == "=":
+                tgt, call = strip(n["inner"][0]), strip_casts(n["inner"][1])
+                if tgt.get("kind") == "DeclRefExpr" and tgt.get("referencedDecl", {}).get("id") in local_ids \
+                        and tgt["referencedDecl"]["id"] != status_id and us_id is None \
+                        and tr.is_self_call(call, "unsolicited_events_service"):
+                    us_id = tgt["referencedDecl"]["id"]
+                    order.append("BI_events_service")
+                    continue
+            if n.get("kind") == "SwitchStmt" and \
+                    tr.field_of(strip_casts(n["inner"][0])) == DISPATCH_FUNCTIONS["cat_service"][0]:
+                order.append("BI_dispatch")
+                continue
+            if n.get("kind") == "IfStmt" and merge is None and us_id is not None and \
+                    us_id in var_reads([n["inner"][0]]) and status_id in local_writes([n]):
+                merge = n
+                order.append("BI_merge")
+                continue
+            refuse(i, "a statement between lock and unlock is neither `<local> = "
+                      "unsolicited_events_service(self);`, the switch over self->state nor the "
+                      "merge of the two statuses")
+        text = "(* cat.c:%s-%s  cat_service: the mutex bracket and what stands between lock and unlock *)\n" \
+               "Definition g_cat_service_shape : service_shape :=\n  mkServiceShape %s\n    [%s].\n" % (
+                   first, last, shape, "; ".join(order))
+        if merge is not None:
+            mtext, rep = translate_function(
+                fn, decls, defines_ok, defined_in_tu, aux=aux,
+                fragment=("_merge", [merge, final], [(us_id, "Z"), (status_id, "Z")]))
+            if rep["status"] != "translated":
+                raise Unsupported("the merge of the two statuses: %s" % rep.get("why", rep["status"]))
+            text += mtext
+        else:
+            raise Unsupported("no `if (<status of unsolicited_events_service> ..) s = ..;` between "
+                              "lock and unlock")
+        return text, {"status": "translated", "coq_name": "g_cat_service_shape",
+                      "lines": [first, last], "mode": "api", "const_status": None}
+    except Unsupported as e:
+        return None, {"status": "unsupported", "why": str(e)}
+    except (KeyError, IndexError, TypeError, ValueError, AttributeError) as e:
+        return None, {"status": "unsupported", "why": "unexpected AST shape: %r" % (e,)}
 
 
 def translate_dispatch(fn, decls):
@@ -1840,6 +3225,8 @@ def translate_dispatch(fn, decls):
             if not stmts:
                 return "DNothing"
             if len(stmts) == 1:
+                if strip(stmts[0]).get("kind") == "CallExpr":
+                    return "DCallOnly %s" % handler_call(stmts[0])
                 rhs = assign_to_status(stmts[0])
                 if rhs is not None:
                     if strip_casts(rhs).get("kind") == "CallExpr":
@@ -1903,7 +3290,7 @@ def translate(repo_src_dir, functions=None):
     """Translate the handler functions of <repo_src_dir>/cat.c.
     -> (coq_text, report); report[fn]['status'] in {'translated','unsupported','missing'}."""
     functions = HANDLER_FUNCTIONS + POST_CALL_FUNCTIONS + list(DISPATCH_FUNCTIONS) + [ENUM_VALUES] \
-        if functions is None else functions
+        + API_FUNCTIONS + [SERVICE_BRACKET] if functions is None else functions
     src = os.path.join(repo_src_dir, "cat.c")
     header = GEN_HEADER % {"source": src, "lp": GEN_LOGICAL_PATH}
     defs, enums, err = load_translation_unit(repo_src_dir)
@@ -1917,6 +3304,10 @@ def translate(repo_src_dir, functions=None):
             text, report[fn] = translate_enum_values(enums)
         elif fn in DISPATCH_FUNCTIONS:
             text, report[fn] = translate_dispatch(fn, defs.get(fn, []))
+        elif fn in API_FUNCTIONS or fn == SERVICE_BRACKET:
+            text, report[fn] = translate_api("cat_service" if fn == SERVICE_BRACKET else fn,
+                                             defs.get("cat_service" if fn == SERVICE_BRACKET else fn, []),
+                                             defines_ok, frozenset(defs), aux, fn == SERVICE_BRACKET)
         else:
             text, report[fn] = translate_function(fn, defs.get(fn, []), defines_ok, frozenset(defs),
                                                   aux=aux)
@@ -2017,15 +3408,16 @@ def find_witness(segs, fn, coq_dir, workdir):
     return w
 
 
-def run_handler_tie(repo_src_dir, workdir, coq_dir, template_path=None):
+def run_handler_tie(repo_src_dir, workdir, coq_dir, template_path=None, tie_src_dir=None):
     """Regenerate HandlerGen.v from the C source, assemble HandlerTie.v, compile, diagnose.
     -> dict: translated / unsupported / missing / proved / failed / wall_s (see module doc)."""
     t0 = time.time()
     repo_src_dir, workdir, coq_dir = (os.path.abspath(p) for p in (repo_src_dir, workdir, coq_dir))
-    template_path = template_path or os.path.join(coq_dir, TEMPLATE_NAME)
+    tie_src_dir = os.path.abspath(tie_src_dir) if tie_src_dir else coq_dir
+    template_path = template_path or os.path.join(tie_src_dir, TEMPLATE_NAME)
     os.makedirs(workdir, exist_ok=True)
     for name in os.listdir(workdir):                  # never reuse anything from an older run
-        if re.match(r"\.?Handler(Gen|Tie|Diag|TieLib)", name):
+        if re.match(r"\.?Handler(Gen|Tie|Diag|TieLib)", name) or name == ".lia.cache":
             os.remove(os.path.join(workdir, name))
 
     gen_text, report = translate(repo_src_dir)
@@ -2057,7 +3449,7 @@ def run_handler_tie(repo_src_dir, workdir, coq_dir, template_path=None):
 
     write(res["files"]["generated"], gen_text)
     lib = os.path.join(workdir, LIB_NAME)
-    shutil.copyfile(os.path.join(coq_dir, LIB_NAME), lib)
+    shutil.copyfile(os.path.join(tie_src_dir, LIB_NAME), lib)
     with open(template_path) as f:
         segs = parse_template(f.read())
     known = {fn for fn, _, _ in segs if fn}
@@ -2073,18 +3465,31 @@ def run_handler_tie(repo_src_dir, workdir, coq_dir, template_path=None):
     if not ok:                                        # a translator bug, not a difference
         return fail_all(todo, "generated HandlerGen.v does not compile", tail)
 
-    # 1st attempt: all translated functions in one HandlerTie.v
-    tie = res["files"]["tie"]
-    text = assemble(segs, todo)
-    write(tie, text)
-    ok, out, tail = coqc(tie, coq_dir, workdir)
-    if ok and all_closed(out, text):
-        res["proved"] = todo
-        return done()
-
-    # Something failed: check every function on its own (in parallel) to attribute the failure ...
+    # HandlerTie.v = the template restricted to the translated functions (kept for the reader).  It is
+    # COMPILED IN PARTS, in parallel: the functions are dealt into a few files HandlerTie_partK.v
+    # (each with the common text); a part that is accepted proves all its functions.
     from concurrent.futures import ThreadPoolExecutor
+    tie = res["files"]["tie"]
+    write(tie, assemble(segs, todo))
+    cpus = os.cpu_count() or 1
+    weight = {"set_cmd_state": 6, "get_cmd_state": 4,          # the exhaustive sweeps
+              "format_info_type": 8, "update_command": 3, "search_command": 2}
+    nparts = max(1, min(8, cpus // 2, len(todo)))
+    parts, load = [[] for _ in range(nparts)], [0] * nparts
+    for f in sorted(todo, key=lambda f: -weight.get(f, 1)):
+        k = load.index(min(load))
+        parts[k].append(f)
+        load[k] += weight.get(f, 1)
+    parts = [sorted(p, key=todo.index) for p in parts if p]
 
+    def check_part(k):
+        path = os.path.join(workdir, "HandlerTie_part%d.v" % k)
+        text1 = assemble(segs, parts[k])
+        write(path, text1)
+        ok1, out1, _ = coqc(path, coq_dir, workdir)
+        return ok1 and all_closed(out1, text1)
+
+    # A part that is refused: every function of it is checked on its own, to attribute the failure.
     def check_one(f):
         path = os.path.join(workdir, "HandlerTie_%s.v" % f)
         text1 = assemble(segs, [f])
@@ -2096,33 +3501,29 @@ def run_handler_tie(repo_src_dir, workdir, coq_dir, template_path=None):
         return f, {"witness": w,
                    "coqc": tail1 if not ok1 else "Print Assumptions not closed: " + out1[-400:]}
 
-    with ThreadPoolExecutor(max_workers=min(8, os.cpu_count() or 1)) as pool:
-        for f, failure in pool.map(check_one, todo):
+    with ThreadPoolExecutor(max_workers=min(16, cpus)) as pool:
+        accepted = list(pool.map(check_part, range(len(parts))))
+        proved = {f for k, ok in enumerate(accepted) if ok for f in parts[k]}
+        alone = [f for f in todo if f not in proved]
+        for f, failure in pool.map(check_one, alone):
             if failure is None:
-                res["proved"].append(f)
+                proved.add(f)
             else:
                 if failure["witness"] is None:
                     failure["error"] = ("tie theorem not accepted, but generated and model agree on "
                                         "the whole test family (or the diagnosis could not be run): "
                                         "the proof script no longer applies")
                 res["failed"][f] = failure
-    # ... and leave a HandlerTie.v/.vo behind that contains exactly the proved theorems.
-    text = assemble(segs, res["proved"])
-    write(tie, text)
-    ok, out, tail = coqc(tie, coq_dir, workdir)
-    if not (ok and all_closed(out, text)):
-        for f in res["proved"]:
-            res["failed"][f] = {"witness": None, "coqc": tail,
-                                "error": "proved alone but not in the assembled HandlerTie.v"}
-        res["proved"] = []
+    res["proved"] = [f for f in todo if f in proved]
     return done()
 
 
 def main(argv):
-    if len(argv) != 4:
-        sys.stderr.write("usage: handler_translate.py <repo_src_dir> <workdir> <coq_dir>\n")
+    if len(argv) not in (4, 5):
+        sys.stderr.write("usage: handler_translate.py <repo_src_dir> <workdir> <coq_dir> "
+                         "[<dir of HandlerTieLib.v and HandlerTie.v.in, default coq_dir>]\n")
         return 2
-    res = run_handler_tie(argv[1], argv[2], argv[3])
+    res = run_handler_tie(argv[1], argv[2], argv[3], tie_src_dir=argv[4] if len(argv) == 5 else None)
     print(json.dumps(res, indent=2))
     return 1 if any(v.get("witness") for v in res["failed"].values()) else 0
 
